@@ -1,14 +1,23 @@
 //! C02 — a mint charges exactly the current price and disburses all of it.
 //!
-//! All 11 minters are created through their factories (`lp_harness::minters`); every protocol line is executed
-//! against the real contracts with a full balance sheet (every tracked account x every tracked denom + total
-//! supply) taken before and after. The Lean driver (`Driver/C02.lean`, model `Model/MintPay.lean`) runs the same
-//! lines; answers must be identical. Monitors transcribe the property on the implementation's own observations.
-use cosmwasm_std::to_json_binary;
+//! All 11 minters are created through their factories (`lp_harness::minters`), paired with single-stage AND tiered
+//! whitelists; every protocol line is executed against the real contracts with a full balance sheet (every tracked
+//! account x every tracked denom + total supply) taken before and after. The Lean driver (`Driver/C02.lean`, models
+//! `Model/MintPay.lean` + `Model/MintPayStaged.lean`) runs the same lines; the PRIMARY part of the answers (ok/err +
+//! balances of everybody except the protocol fee recipients) must be identical, the rest (` ## ` fee split, supply,
+//! MintPrice query, rejection reason) is compared as non-fatal drift.
+//!
+//! Monitors transcribe the property from what the harness itself knows: the prices / fee rates / whitelist stage
+//! tables it SENT and that were accepted (ghost state), the clock it set, the accounts it funded — never from the
+//! minter's own `mint_price()` or the whitelist's `Config {}` answer. The fee split is taken from the real
+//! `sg1::distribute_mint_fees` / `sg1::fair_burn` called in-process with the flag / developer each contract is
+//! documented to pass (the ratios themselves are C06's).
+use cosmwasm_std::{to_json_binary, Addr, Response};
 use lp_harness::minters::*;
-use lp_harness::world::{addr, addr_id, denom_id, ID_FAIRBURN_POOL, ID_FOUNDATION, ID_LAUNCHPAD_DAO, ID_LIQUIDITY_DAO};
+use lp_harness::world::{addr, addr_id, coin_of, denom_id, render_msg, ID_FAIRBURN_POOL, ID_FOUNDATION, ID_LAUNCHPAD_DAO, ID_LIQUIDITY_DAO};
 use lp_harness::*;
 use serde_json::{json, Value};
+use std::collections::BTreeMap;
 
 const ADMIN: u64 = 10;
 const WL_ADMIN: u64 = 11;
@@ -23,14 +32,28 @@ const FIXED_ACCTS: [u64; 19] = [1, 2, 3, 4, 10, 11, 20, 21, 22, 23, 24, 25, 26, 
 const DENOMS: [u64; 4] = [0, 7, 8, 9];
 const DAY: u64 = 86_400_000_000_000;
 const SEC: u64 = 1_000_000_000;
+const SHUFFLE_FEE: u128 = 500_000_000;
 
 type C = (u64, u128); // (denom id, amount)
 
+/// one whitelist stage as the harness created / edited it
 #[derive(Clone, Debug, PartialEq)]
-struct WlSpec {
+struct St {
     price: C,
     start: u64,
     end: u64,
+}
+/// stage table of one whitelist contract. `incl` = tiered kind (windows `start <= now <= end`, first match wins);
+/// otherwise a single-stage kind (`start <= now < end`)
+#[derive(Clone, Debug, PartialEq)]
+struct Sched {
+    incl: bool,
+    stages: Vec<St>,
+}
+impl Sched {
+    fn current(&self, now: u64) -> Option<(usize, &St)> {
+        self.stages.iter().enumerate().find(|(_, s)| s.start <= now && if self.incl { now <= s.end } else { now < s.end })
+    }
 }
 
 #[derive(Clone, Debug)]
@@ -43,14 +66,16 @@ struct Sc {
     fee_bps: u64,
     air: C,
     air_bps: u64,
-    dev: u64,
+    /// the two developer addresses this case switches between (open edition); `devs[0]` is the initial one
+    devs: [u64; 2],
     min: u128,
-    wl: Option<WlSpec>,
-    wlb: Option<WlSpec>,
+    wl: Option<Sched>,
+    wlb: Option<Sched>,
     now: u64,
     start: u64,
-    /// optional per-address limit override (sweep cases)
+    /// optional per-address limit / token count overrides
     pal: Option<u64>,
+    ntok: Option<u64>,
 }
 
 fn fmt_c(c: &C) -> String {
@@ -60,28 +85,54 @@ fn parse_c(s: &str) -> Option<C> {
     let (a, b) = s.split_once(':')?;
     Some((a.parse().ok()?, b.parse().ok()?))
 }
-fn fmt_wl(w: &Option<WlSpec>) -> String {
+fn fmt_sched(w: &Option<Sched>) -> String {
     match w {
         None => "-".into(),
-        Some(w) => format!("{}:{}:{}:{}", w.price.0, w.price.1, w.start, w.end),
+        Some(w) => format!(
+            "{}@{}",
+            if w.incl { "i" } else { "x" },
+            w.stages.iter().map(|s| format!("{}:{}:{}:{}", s.price.0, s.price.1, s.start, s.end)).collect::<Vec<_>>().join("+")
+        ),
     }
 }
-fn parse_wl(s: &str) -> Option<WlSpec> {
+fn parse_sched(s: &str) -> Option<Sched> {
     if s == "-" {
         return None;
     }
-    let p: Vec<&str> = s.split(':').collect();
-    Some(WlSpec { price: (p[0].parse().ok()?, p[1].parse().ok()?), start: p[2].parse().ok()?, end: p[3].parse().ok()? })
+    let (k, body) = s.split_once('@')?;
+    let mut stages = vec![];
+    if !body.is_empty() {
+        for p in body.split('+') {
+            let f: Vec<&str> = p.split(':').collect();
+            if f.len() != 4 {
+                return None;
+            }
+            stages.push(St { price: (f[0].parse().ok()?, f[1].parse().ok()?), start: f[2].parse().ok()?, end: f[3].parse().ok()? });
+        }
+    }
+    Some(Sched { incl: k == "i", stages })
 }
 
 impl Sc {
+    fn fee_accts(&self) -> Vec<u64> {
+        let mut v = vec![ID_FOUNDATION, ID_LAUNCHPAD_DAO, ID_LIQUIDITY_DAO, ID_FAIRBURN_POOL];
+        for d in self.devs {
+            if !v.contains(&d) {
+                v.push(d);
+            }
+        }
+        v
+    }
     fn header(&self) -> String {
-        let pal = match self.pal {
-            Some(p) => format!(" pal={p}"),
-            None => String::new(),
-        };
+        let mut opt = String::new();
+        if let Some(p) = self.pal {
+            opt.push_str(&format!(" pal={p}"));
+        }
+        if let Some(p) = self.ntok {
+            opt.push_str(&format!(" ntok={p}"));
+        }
         format!(
-            "case v={} d={} price={} pay={} cap={} fee_bps={} air={} air_bps={} dev={} min={} wl={} wlb={} now={} start={}{pal} accts={} denoms={}",
+            "case v={} d={} price={} pay={} cap={} fee_bps={} air={} air_bps={} dev={} devs={} min={} wl={} wlb={} now={} start={}{opt} accts={} denoms={} feeaccts={}",
             self.v,
             self.d,
             self.price,
@@ -90,17 +141,20 @@ impl Sc {
             self.fee_bps,
             fmt_c(&self.air),
             self.air_bps,
-            self.dev,
+            self.devs[0],
+            fmt_list(&self.devs),
             self.min,
-            fmt_wl(&self.wl),
-            fmt_wl(&self.wlb),
+            fmt_sched(&self.wl),
+            fmt_sched(&self.wlb),
             self.now,
             self.start,
             fmt_list(&FIXED_ACCTS),
-            fmt_list(&DENOMS)
+            fmt_list(&DENOMS),
+            fmt_list(&self.fee_accts())
         )
     }
     fn parse(h: &str) -> Sc {
+        let devs = kv_list(h, "devs").expect("devs");
         Sc {
             v: kv_u64(h, "v").expect("v") as usize,
             d: kv_u64(h, "d").expect("d"),
@@ -110,13 +164,14 @@ impl Sc {
             fee_bps: kv_u64(h, "fee_bps").expect("fee_bps"),
             air: parse_c(kv(h, "air").expect("air")).expect("air"),
             air_bps: kv_u64(h, "air_bps").expect("air_bps"),
-            dev: kv_u64(h, "dev").expect("dev"),
+            devs: [devs[0] as u64, devs[1] as u64],
             min: kv_u128(h, "min").expect("min"),
-            wl: parse_wl(kv(h, "wl").expect("wl")),
-            wlb: parse_wl(kv(h, "wlb").expect("wlb")),
+            wl: parse_sched(kv(h, "wl").expect("wl")),
+            wlb: parse_sched(kv(h, "wlb").expect("wlb")),
             now: kv_u64(h, "now").expect("now"),
             start: kv_u64(h, "start").expect("start"),
             pal: kv_u64(h, "pal"),
+            ntok: kv_u64(h, "ntok"),
         }
     }
     fn kind(&self) -> MinterKind {
@@ -126,16 +181,140 @@ impl Sc {
 
 type Sheet = Vec<((u64, u64), u128)>;
 
-/// what the implementation's own queries say about prices and fees (raw configuration, not `mint_price()`)
-#[derive(Clone, Debug, Default)]
-struct View {
-    public: Option<C>,
+/// What the harness knows by itself: everything it configured, sent and saw accepted (never a price answer of the
+/// contracts under test).
+#[derive(Clone, Debug)]
+struct Ghost {
+    /// `config.mint_price` (base minter: the factory minimum captured at instantiation)
+    public: C,
     discount: Option<C>,
-    wl: Option<(bool, C)>, // (is_active, mint_price) of the attached whitelist
+    att: Option<char>,
+    wla: Option<Sched>,
+    wlb: Option<Sched>,
     fee_bps: u64,
     air: C,
     air_bps: u64,
-    dev: Option<u64>,
+    dev: u64,
+    now: u64,
+}
+impl Ghost {
+    fn sched(&self) -> Option<&Sched> {
+        match self.att {
+            Some('a') => self.wla.as_ref(),
+            Some('b') => self.wlb.as_ref(),
+            _ => None,
+        }
+    }
+    fn stage_now(&self) -> Option<(usize, &St)> {
+        self.sched().and_then(|s| s.current(self.now))
+    }
+    fn wl_mut(&mut self, which: char) -> Option<&mut Sched> {
+        if which == 'a' {
+            self.wla.as_mut()
+        } else {
+            self.wlb.as_mut()
+        }
+    }
+}
+
+/// The price in force per the property text: airdrop price for admin mints, the active whitelist stage's price, else
+/// discount price, else public price; base-minter = captured min_mint_price x mint_fee_bps in the native denom (all of
+/// it is the fee); token-merge deposits are free. Returns (price, fee rate bps).
+fn price_in_force(kind: MinterKind, g: &Ghost, admin: bool) -> (C, u64) {
+    match kind {
+        MinterKind::Base => ((0, mul_bps(g.public.1, g.fee_bps)), 10_000),
+        MinterKind::TokenMerge => {
+            if admin {
+                (g.air, g.air_bps)
+            } else {
+                ((0, 0), 0)
+            }
+        }
+        _ => {
+            if admin {
+                (g.air, g.air_bps)
+            } else {
+                match g.stage_now() {
+                    Some((_, st)) => (st.price, g.fee_bps),
+                    None => (g.discount.unwrap_or(g.public), g.fee_bps),
+                }
+            }
+        }
+    }
+}
+fn price_kind(kind: MinterKind, g: &Ghost, admin: bool) -> &'static str {
+    match kind {
+        MinterKind::Base => "base",
+        MinterKind::TokenMerge => {
+            if admin {
+                "airdrop"
+            } else {
+                "merge"
+            }
+        }
+        _ => {
+            if admin {
+                "airdrop"
+            } else if g.stage_now().is_some() {
+                "whitelist"
+            } else if g.discount.is_some() {
+                "discount"
+            } else {
+                "public"
+            }
+        }
+    }
+}
+
+/// one bank effect of the minter's response, from the real sg1 functions
+#[derive(Clone, Debug, PartialEq)]
+enum Flow {
+    Send(u64, u64, u128),
+    Burn(u64, u128),
+}
+fn flows_of(res: &Response) -> Vec<Flow> {
+    res.messages
+        .iter()
+        .filter_map(|m| {
+            let r = render_msg(&m.msg);
+            let f: Vec<&str> = r.split(':').collect();
+            match f.as_slice() {
+                ["send", a, d, n] => Some(Flow::Send(a.parse().ok()?, d.parse().ok()?, n.parse().ok()?)),
+                ["burn", d, n] => Some(Flow::Burn(d.parse().ok()?, n.parse().ok()?)),
+                ["pool", _, d, n] => Some(Flow::Send(ID_FAIRBURN_POOL, d.parse().ok()?, n.parse().ok()?)),
+                _ => None,
+            }
+        })
+        .collect()
+}
+/// "according to the fee schedule": what the real `sg1::distribute_mint_fees` does with this fee, flag and developer
+fn oracle_distribute(fee: C, featured: bool, dev: Option<u64>) -> Vec<Flow> {
+    catch(|| {
+        let mut res = Response::new();
+        let _ = sg1::distribute_mint_fees(coin_of(fee.0, fee.1), &mut res, featured, dev.map(|d| Addr::unchecked(addr(d))));
+        flows_of(&res)
+    })
+    .unwrap_or_default()
+}
+fn oracle_fair_burn(minter: &str, fee: u128) -> Vec<Flow> {
+    let m = minter.to_string();
+    catch(move || {
+        let mut res = Response::new();
+        sg1::fair_burn(m, fee, None, &mut res);
+        flows_of(&res)
+    })
+    .unwrap_or_default()
+}
+
+/// what a successful mint must do to every account, from ghost state + the fee-schedule oracle
+#[derive(Clone, Debug, Default)]
+struct Expect {
+    price: C,
+    fee: u128,
+    seller: u64,
+    delta: BTreeMap<(u64, u64), i128>,
+    burned: BTreeMap<u64, u128>,
+    fee_recips: Vec<u64>,
 }
 
 #[derive(Clone, Debug)]
@@ -146,7 +325,8 @@ struct Last {
     after: Sheet,
     sup_before: Vec<u128>,
     sup_after: Vec<u128>,
-    view: View,
+    /// ghost state when the op was executed
+    g: Ghost,
 }
 
 struct S {
@@ -158,16 +338,27 @@ struct S {
     wl_a: Option<String>,
     wl_b: Option<String>,
     src_coll: Option<String>,
+    /// corpus only: the source "collection" forwards funds
+    fwd: bool,
     accts: Vec<u64>,
+    fee_accts: Vec<u64>,
     last: Option<Last>,
-    err_kinds: std::collections::BTreeMap<String, u64>,
+    g: Option<Ghost>,
+    err_kinds: BTreeMap<String, u64>,
+    /// diagnostics that never decide anything (ghost vs the contracts' own answers)
+    diag: BTreeMap<String, u64>,
+    diag_first: BTreeMap<String, String>,
 }
 
 fn jcoin_to_c(v: &Value) -> Option<C> {
     Some((denom_id(v.get("denom")?.as_str()?), v.get("amount")?.as_str()?.parse().ok()?))
 }
+fn jnanos(v: &Value) -> Option<u64> {
+    v.as_str()?.parse().ok()
+}
 
-/// errors the MODEL must reproduce (payment / price / arithmetic / bank); anything else is a gate C02 is silent about
+/// DIAGNOSTIC ONLY (drift part `why=`, evidence notes): does the error text look like a payment / price / bank error?
+/// Nothing that decides agreement or a monitor depends on error texts.
 fn payment_owned(err: &str) -> bool {
     const PAT: [&str; 13] = [
         "Cannot transfer empty coins amount",
@@ -188,43 +379,218 @@ fn payment_owned(err: &str) -> bool {
 }
 
 fn err_kind(err: &str) -> String {
-    const K: [&str; 26] = [
-        "Cannot transfer empty coins amount",
-        "MissingProofHashes",
-        "invalid collection",
-        "not found",
-        "IncorrectPaymentAmount",
-        "Must send reserve token",
-        "Received unsupported denom",
-        "Sent more than one denomination",
-        "No funds sent",
-        "Insufficient fee",
-        "InvalidMintPrice",
-        "non-zero airdrop price",
-        "panic:",
-        "verflow",
-        "Cannot Sub",
-        "Unauthorized",
-        "not on whitelist",
-        "Max minting limit per address exceeded",
-        "Minting has not started yet",
-        "Sold out",
-        "already sold",
-        "Invalid token id",
-        "InvalidCollection",
-        "AfterMintEndTime",
-        "Minting has ended",
-        "Error parsing",
-    ];
-    for k in K {
-        if err.contains(k) {
-            return k.to_string();
+    let tail = err.rsplit(": ").next().unwrap_or(err);
+    let tail: String = tail.chars().filter(|c| !c.is_ascii_digit()).take(48).collect();
+    tail.replace(' ', "_")
+}
+
+fn sha(b: &[u8]) -> Vec<u8> {
+    use sha2::{Digest, Sha256};
+    let mut h = Sha256::new();
+    h.update(b);
+    h.finalize().to_vec()
+}
+fn blake16(b: &[u8]) -> Vec<u8> {
+    blake3::hash(b).as_bytes()[..16].to_vec()
+}
+/// sorted-pair Merkle tree over the BUYERS' addresses: (root, proof per buyer). `whitelist-merkletree` hashes with
+/// SHA-256, `tiered-whitelist-merkletree` with BLAKE3 truncated to 16 bytes.
+fn buyers_tree(h: fn(&[u8]) -> Vec<u8>) -> (String, Vec<Vec<String>>) {
+    let mut level: Vec<Vec<u8>> = BUYERS.iter().map(|b| h(addr(*b).as_bytes())).collect();
+    let mut idx: Vec<usize> = (0..level.len()).collect();
+    let mut proofs: Vec<Vec<String>> = vec![vec![]; level.len()];
+    while level.len() > 1 {
+        for (i, ix) in idx.iter_mut().enumerate() {
+            let sib = *ix ^ 1;
+            if sib < level.len() {
+                proofs[i].push(hex::encode(&level[sib]));
+            }
+            *ix /= 2;
+        }
+        let mut next = vec![];
+        for ch in level.chunks(2) {
+            if ch.len() == 2 {
+                let mut pair = [ch[0].clone(), ch[1].clone()];
+                pair.sort_unstable();
+                next.push(h(&pair.concat()));
+            } else {
+                next.push(ch[0].clone());
+            }
+        }
+        level = next;
+    }
+    (hex::encode(&level[0]), proofs)
+}
+
+/// floor(x * bps / 10^4) without overflow for x < 2^114
+fn mul_bps(x: u128, bps: u64) -> u128 {
+    let q = x / 10_000;
+    let r = x % 10_000;
+    q * bps as u128 + r * bps as u128 / 10_000
+}
+
+// ------------------------------------------------------------------------------------------------ message surface
+//
+// The ExecuteMsg variants are enumerated at RUN TIME from the JSON schema of each minter crate, so a new message does
+// not stop this file from compiling: it is reported (`unknown-variant:*`) and sent — raw JSON, minimal arguments
+// derived from the schema — under the monitors ("no message strands / creates / loses coins").
+
+fn exec_schema(kind: MinterKind) -> Value {
+    use cosmwasm_schema::schema_for;
+    let s = match kind {
+        MinterKind::Vending => serde_json::to_value(schema_for!(vending_minter::msg::ExecuteMsg)),
+        MinterKind::VendingFeatured => serde_json::to_value(schema_for!(vending_minter_featured::msg::ExecuteMsg)),
+        MinterKind::VendingFlex => serde_json::to_value(schema_for!(vending_minter_wl_flex::msg::ExecuteMsg)),
+        MinterKind::VendingFlexFeatured => serde_json::to_value(schema_for!(vending_minter_wl_flex_featured::msg::ExecuteMsg)),
+        MinterKind::VendingMerkle => serde_json::to_value(schema_for!(vending_minter_merkle_wl::msg::ExecuteMsg)),
+        MinterKind::VendingMerkleFeatured => serde_json::to_value(schema_for!(vending_minter_merkle_wl_featured::msg::ExecuteMsg)),
+        MinterKind::OpenEdition => serde_json::to_value(schema_for!(open_edition_minter::msg::ExecuteMsg)),
+        MinterKind::OpenEditionFlex => serde_json::to_value(schema_for!(open_edition_minter_wl_flex::msg::ExecuteMsg)),
+        MinterKind::OpenEditionMerkle => serde_json::to_value(schema_for!(open_edition_minter_merkle_wl::msg::ExecuteMsg)),
+        MinterKind::TokenMerge => serde_json::to_value(schema_for!(token_merge_minter::msg::ExecuteMsg)),
+        MinterKind::Base => serde_json::to_value(schema_for!(base_minter::msg::ExecuteMsg)),
+    };
+    s.unwrap_or(Value::Null)
+}
+
+/// variants driven by the dedicated protocol ops (`mint`, `set_price`, …)
+const HANDLED: [&str; 8] = ["mint", "mint_to", "mint_for", "update_mint_price", "update_discount_price", "remove_discount_price", "set_whitelist", "receive_nft"];
+/// the other variants that exist today (anything else is reported as unknown — and sent all the same)
+const OTHER_TODAY: [&str; 7] = ["purge", "update_start_time", "update_end_time", "update_start_trading_time", "update_per_address_limit", "shuffle", "burn_remaining"];
+
+/// (variant name, schema node of the variant)
+fn variants_of(schema: &Value) -> Vec<(String, Value)> {
+    let mut out = vec![];
+    for v in schema.get("oneOf").or_else(|| schema.get("anyOf")).and_then(|x| x.as_array()).cloned().unwrap_or_default() {
+        if let Some(e) = v.get("enum").and_then(|e| e.as_array()) {
+            for n in e {
+                if let Some(n) = n.as_str() {
+                    out.push((n.to_string(), Value::Null));
+                }
+            }
+        } else if let Some(req) = v.get("required").and_then(|r| r.as_array()).and_then(|r| r.first()).and_then(|r| r.as_str()) {
+            out.push((req.to_string(), v["properties"][req].clone()));
         }
     }
-    let tail = err.rsplit(": ").next().unwrap_or(err);
-    let tail: String = tail.chars().take(60).collect();
-    format!("other:{}", tail.replace(' ', "_"))
+    out
 }
+
+/// a minimal value for a schema node: required properties only, `null` where allowed, `n` for numbers / numeric strings,
+/// an account for address-like names
+fn build_value(node: &Value, defs: &Value, hint: &str, n: u64, depth: u32) -> Value {
+    if depth > 8 {
+        return Value::Null;
+    }
+    if let Some(r) = node.get("$ref").and_then(|r| r.as_str()) {
+        let name = r.rsplit('/').next().unwrap_or("");
+        return build_value(&defs[name], defs, name, n, depth + 1);
+    }
+    if let Some(a) = node.get("allOf").and_then(|a| a.as_array()) {
+        if let Some(f) = a.first() {
+            return build_value(f, defs, hint, n, depth + 1);
+        }
+    }
+    for key in ["anyOf", "oneOf"] {
+        if let Some(a) = node.get(key).and_then(|a| a.as_array()) {
+            if a.iter().any(|x| x.get("type").and_then(|t| t.as_str()) == Some("null")) {
+                return Value::Null;
+            }
+            if let Some(f) = a.first() {
+                if let Some(req) = f.get("required").and_then(|r| r.as_array()).and_then(|r| r.first()).and_then(|r| r.as_str()) {
+                    let mut m = serde_json::Map::new();
+                    m.insert(req.to_string(), build_value(&f["properties"][req], defs, req, n, depth + 1));
+                    return Value::Object(m);
+                }
+                return build_value(f, defs, hint, n, depth + 1);
+            }
+        }
+    }
+    let ty = match node.get("type") {
+        Some(Value::String(s)) => s.clone(),
+        Some(Value::Array(a)) => {
+            if a.iter().any(|x| x.as_str() == Some("null")) {
+                return Value::Null;
+            }
+            a.first().and_then(|x| x.as_str()).unwrap_or("null").to_string()
+        }
+        _ => "object".to_string(),
+    };
+    match ty.as_str() {
+        "object" => {
+            let mut m = serde_json::Map::new();
+            for r in node.get("required").and_then(|r| r.as_array()).cloned().unwrap_or_default() {
+                if let Some(r) = r.as_str() {
+                    m.insert(r.to_string(), build_value(&node["properties"][r], defs, r, n, depth + 1));
+                }
+            }
+            Value::Object(m)
+        }
+        "string" => {
+            let h = hint.to_ascii_lowercase();
+            if ["recipient", "address", "addr", "whitelist", "sender", "contract", "collection", "owner", "admin", "to"].iter().any(|k| h.contains(k)) {
+                Value::String(addr(RECIP))
+            } else if h.contains("binary") || h == "msg" {
+                Value::String("e30=".into())
+            } else if h.contains("uri") || h.contains("url") {
+                Value::String("ipfs://bafybeigi3bwpvyvsmnbj46ra4hyffcxdeaj6ntfk5jpic5mx27x6ih2qvq/1".into())
+            } else {
+                Value::String(n.to_string())
+            }
+        }
+        "integer" | "number" => {
+            let small = node.get("format").and_then(|f| f.as_str()).map(|f| f.contains("32") || f.contains("16") || f.contains("8")).unwrap_or(false);
+            json!(if small { n % 40 + 1 } else { n })
+        }
+        "boolean" => json!(false),
+        "array" => json!([]),
+        _ => Value::Null,
+    }
+}
+
+/// the JSON message for variant `name` of this minter's ExecuteMsg (None: no such variant in the schema)
+fn build_variant(kind: MinterKind, name: &str, n: u64) -> Option<Value> {
+    let schema = exec_schema(kind);
+    let defs = schema.get("definitions").cloned().unwrap_or(Value::Null);
+    let (_, node) = variants_of(&schema).into_iter().find(|(v, _)| v == name)?;
+    if node.is_null() {
+        return Some(Value::String(name.to_string()));
+    }
+    let mut m = serde_json::Map::new();
+    m.insert(name.to_string(), build_value(&node, &defs, name, n, 0));
+    Some(Value::Object(m))
+}
+
+// ------------------------------------------------------------------------------------------------ corpus-only helper
+//
+// A "collection" that FORWARDS the funds attached to it when it hands a token to the token-merge minter (a standard
+// cw721 `send_nft` never does). Only used by the corpus replay `corpus/C02/merge-deposit-with-funds.json` (header
+// `fwd=1`), which shows on the real contract what `C02_merge_deposit_funds_counterexample` proves on the model: the
+// deposit path has no payment check, so forwarded coins stay in the minter.
+fn forwarder_box() -> lp_harness::boxes::Boxed {
+    use cosmwasm_std::{Binary, Deps, DepsMut, Empty, Env, MessageInfo, StdError, StdResult, WasmMsg};
+    fn exec(_d: DepsMut, _e: Env, info: MessageInfo, msg: Value) -> StdResult<Response> {
+        if let Some(f) = msg.get("forward") {
+            let minter = f["minter"].as_str().ok_or_else(|| StdError::generic_err("minter"))?.to_string();
+            let inner = to_json_binary(&json!({"deposit_token":{"recipient": null}}))?;
+            let m = WasmMsg::Execute {
+                contract_addr: minter,
+                msg: to_json_binary(&json!({"receive_nft":{"sender": info.sender, "token_id": f["token_id"], "msg": inner}}))?,
+                funds: info.funds,
+            };
+            return Ok(Response::new().add_message(m));
+        }
+        Ok(Response::new()) // `burn` and anything else: accepted, nothing to do
+    }
+    fn inst(_d: DepsMut, _e: Env, _i: MessageInfo, _m: Empty) -> StdResult<Response> {
+        Ok(Response::new())
+    }
+    fn query(_d: Deps, _e: Env, _m: Empty) -> StdResult<Binary> {
+        Ok(Binary::default())
+    }
+    Box::new(cw_multi_test::ContractWrapper::new(exec, inst, query))
+}
+
+// ------------------------------------------------------------------------------------------------ the system under test
 
 impl S {
     fn new() -> S {
@@ -237,9 +603,14 @@ impl S {
             wl_a: None,
             wl_b: None,
             src_coll: None,
+            fwd: false,
             accts: vec![],
+            fee_accts: vec![],
             last: None,
+            g: None,
             err_kinds: Default::default(),
+            diag: Default::default(),
+            diag_first: Default::default(),
         }
     }
     fn world(&mut self) -> &mut World {
@@ -247,6 +618,13 @@ impl S {
     }
     fn kind(&self) -> MinterKind {
         self.sc.as_ref().unwrap().kind()
+    }
+    fn ghost(&self) -> &Ghost {
+        self.g.as_ref().expect("ghost")
+    }
+    fn diag(&mut self, key: &str, first: String) {
+        *self.diag.entry(key.to_string()).or_insert(0) += 1;
+        self.diag_first.entry(key.to_string()).or_insert(first);
     }
     fn sheet(&self) -> Sheet {
         let w = self.w.as_ref().unwrap();
@@ -259,103 +637,27 @@ impl S {
         }
         v
     }
-    /// total supply per tracked denom = sum over EVERY account in the bank module's storage (cw-multi-test 1.2 has no
-    /// supply query without the cosmwasm_1_1 feature; reading the raw `bank/balances` map also sees untracked holders)
+    /// total supply per tracked denom = sum over EVERY holder known to the bank module (`World::all_balances`), so an
+    /// untracked holder is seen as well
     fn supplies(&self) -> Vec<u128> {
         let w = self.w.as_ref().unwrap();
-        let mut prefix: Vec<u8> = vec![0, 4];
-        prefix.extend_from_slice(b"bank");
-        prefix.extend_from_slice(&[0, 8]);
-        prefix.extend_from_slice(b"balances");
-        let mut end = prefix.clone();
-        *end.last_mut().unwrap() += 1;
         let mut tot = vec![0u128; DENOMS.len()];
-        w.app.read_module(|_, _, storage| {
-            for (_k, v) in storage.range(Some(&prefix), Some(&end), cosmwasm_std::Order::Ascending) {
-                let coins: Vec<cosmwasm_std::Coin> = cosmwasm_std::from_json(&v).expect("bank balance record");
-                for c in coins {
-                    if let Some(i) = DENOMS.iter().position(|d| *d == denom_id(&c.denom)) {
-                        tot[i] += c.amount.u128();
-                    }
-                }
+        for ((_, dn), n) in w.all_balances() {
+            if let Some(i) = DENOMS.iter().position(|d| *d == denom_id(&dn)) {
+                tot[i] += n;
             }
-        });
+        }
         tot
     }
-    fn view(&self) -> View {
-        let w = self.w.as_ref().unwrap();
-        let k = self.kind();
-        let mut v = View::default();
-        let p = w.query(&self.factory, &json!({"params":{}})).expect("factory params");
-        let p = &p["params"];
-        match k.factory() {
-            FactoryKind::TokenMerge => {
-                v.air = jcoin_to_c(&p["airdrop_mint_price"]).unwrap();
-                v.air_bps = p["airdrop_mint_fee_bps"].as_u64().unwrap();
-            }
-            FactoryKind::Base => {
-                v.fee_bps = p["mint_fee_bps"].as_u64().unwrap();
-            }
-            _ => {
-                v.fee_bps = p["mint_fee_bps"].as_u64().unwrap();
-                v.air = jcoin_to_c(&p["extension"]["airdrop_mint_price"]).unwrap();
-                v.air_bps = p["extension"]["airdrop_mint_fee_bps"].as_u64().unwrap();
-                v.dev = p["extension"].get("dev_fee_address").and_then(|x| x.as_str()).map(addr_id);
-            }
-        }
-        let cfg = w.query(&self.minter, &json!({"config":{}})).expect("minter config");
-        match k {
-            MinterKind::TokenMerge => {}
-            MinterKind::Base => v.public = jcoin_to_c(&cfg["config"]["mint_price"]),
-            _ => {
-                v.public = jcoin_to_c(&cfg["mint_price"]);
-                v.discount = cfg.get("discount_price").and_then(jcoin_to_c);
-                if let Some(wl) = cfg.get("whitelist").and_then(|x| x.as_str()) {
-                    if let Ok(wc) = w.query(wl, &json!({"config":{}})) {
-                        v.wl = Some((wc["is_active"].as_bool().unwrap_or(false), jcoin_to_c(&wc["mint_price"]).unwrap_or((999_999, 0))));
-                    }
-                }
-            }
-        }
-        v
-    }
-    /// The price in force per the property text, from raw configuration: airdrop price for admin mints, whitelist price
-    /// while a whitelist is active, else discount price, else public price; base-minter = min_mint_price x mint_fee_bps
-    /// in the native denom; token-merge deposits are free. (fee rate bps, whole-price-is-fee)
-    fn price_in_force(&self, v: &View, admin: bool) -> (C, u64) {
-        match self.kind() {
-            MinterKind::Base => {
-                let p = v.public.unwrap();
-                ((0, mul_bps(p.1, v.fee_bps)), 10_000)
-            }
-            MinterKind::TokenMerge => {
-                if admin {
-                    (v.air, v.air_bps)
-                } else {
-                    ((0, 0), 0)
-                }
-            }
-            _ => {
-                if admin {
-                    (v.air, v.air_bps)
-                } else {
-                    let pubp = v.discount.or(v.public).unwrap();
-                    match v.wl {
-                        Some((true, p)) => (p, v.fee_bps),
-                        _ => (pubp, v.fee_bps),
-                    }
-                }
-            }
-        }
-    }
-    fn px(&self) -> String {
+    /// the minter's `MintPrice {}` answer: (drift rendering public/current/discount/airdrop, current price)
+    fn px(&self) -> (String, Option<C>) {
         let k = self.kind();
         if !(k.is_vending() || k.is_open_edition()) {
-            return "-".into();
+            return ("-".into(), None);
         }
         let w = self.w.as_ref().unwrap();
         match w.query(&self.minter, &json!({"mint_price":{}})) {
-            Err(_) => "?".into(),
+            Err(_) => ("?".into(), None),
             Ok(r) => {
                 let c = |x: &Value| jcoin_to_c(x).map(|c| fmt_c(&c)).unwrap_or_else(|| "?".into());
                 let oc = |x: Option<&Value>| match x {
@@ -363,53 +665,101 @@ impl S {
                     Some(x) => c(x),
                 };
                 let disc = if k.is_vending() { oc(r.get("discount_price")) } else { "-".into() };
-                format!(
-                    "{}/{}/{}/{}/{}",
-                    c(&r["public_price"]),
-                    c(&r["current_price"]),
-                    disc,
-                    oc(r.get("whitelist_price")),
-                    jcoin_to_c(&r["airdrop_price"]).map(|c| c.1.to_string()).unwrap_or_else(|| "?".into())
+                (
+                    format!(
+                        "{}/{}/{}/{}",
+                        c(&r["public_price"]),
+                        c(&r["current_price"]),
+                        disc,
+                        jcoin_to_c(&r["airdrop_price"]).map(|c| c.1.to_string()).unwrap_or_else(|| "?".into())
+                    ),
+                    jcoin_to_c(&r["current_price"]),
                 )
             }
         }
     }
-    fn obs(&self, sheet: &Sheet, sup: &[u128]) -> String {
-        let bal: Vec<String> = sheet.iter().filter(|(_, n)| *n != 0).map(|((a, d), n)| format!("{a}:{d}:{n}")).collect();
+    fn obs(&mut self, sheet: &Sheet, sup: &[u128]) -> String {
+        let fmt = |fee: bool, fa: &Vec<u64>| -> String {
+            let v: Vec<String> = sheet.iter().filter(|((a, _), n)| *n != 0 && fa.contains(a) == fee).map(|((a, d), n)| format!("{a}:{d}:{n}")).collect();
+            if v.is_empty() {
+                "-".into()
+            } else {
+                v.join(",")
+            }
+        };
         let sup: Vec<String> = DENOMS.iter().zip(sup.iter()).map(|(d, n)| format!("{d}:{n}")).collect();
-        format!("bal={} sup={} px={}", if bal.is_empty() { "-".into() } else { bal.join(",") }, sup.join(","), self.px())
+        let (px, cur) = self.px();
+        // diagnostic: the harness's own idea of the price in force vs the minter's MintPrice answer
+        if let Some(cur) = cur {
+            let mine = price_in_force(self.kind(), self.ghost(), false).0;
+            if mine != cur {
+                let now = self.ghost().now;
+                self.diag("ghost-price-vs-MintPrice-query", format!("ghost {mine:?} query {cur:?} at {now}"));
+            }
+        }
+        format!("bal={} ## fb={} sup={} px={} why=-", fmt(false, &self.fee_accts), fmt(true, &self.fee_accts), sup.join(","), px)
     }
 
-    fn make_wl(&mut self, kind: MinterKind, spec: &WlSpec) -> String {
-        let wk = if kind.is_flex() {
-            WlKind::Flex
-        } else if kind.is_merkle() {
-            WlKind::Merkle
-        } else {
-            WlKind::Plain
-        };
+    fn wl_kind(kind: MinterKind, incl: bool) -> WlKind {
+        match (kind.is_flex(), kind.is_merkle(), incl) {
+            (true, _, true) => WlKind::TieredFlex,
+            (true, _, false) => WlKind::Flex,
+            (_, true, true) => WlKind::TieredMerkle,
+            (_, true, false) => WlKind::Merkle,
+            (_, _, true) => WlKind::Tiered,
+            _ => WlKind::Plain,
+        }
+    }
+
+    fn make_wl(&mut self, kind: MinterKind, spec: &Sched) -> String {
+        let wk = Self::wl_kind(kind, spec.incl);
         let members: Vec<(u64, u32)> = BUYERS.iter().map(|b| (*b, 30)).collect();
+        let root = if wk == WlKind::TieredMerkle { buyers_tree(blake16).0 } else { buyers_tree(sha).0 };
         let args = WlArgs {
             admin: WL_ADMIN,
             member_limit: 1000,
             admins_mutable: true,
             whale_cap: None,
-            stages: vec![WlStage {
-                start: spec.start,
-                end: spec.end,
-                mint_price: spec.price,
-                per_address_limit: 30,
-                mint_count_limit: None,
-                members,
-                merkle_root: buyers_tree().0,
-            }],
+            stages: spec
+                .stages
+                .iter()
+                .map(|s| WlStage { start: s.start, end: s.end, mint_price: s.price, per_address_limit: 30, mint_count_limit: None, members: members.clone(), merkle_root: root.clone() })
+                .collect(),
         };
-        self.world().new_whitelist(wk, &args).expect("whitelist")
+        match self.world().new_whitelist(wk, &args) {
+            Ok(a) => a,
+            Err(e) => panic!("C02 generator produced an invalid whitelist ({wk:?} {}): {e}", fmt_sched(&Some(spec.clone()))),
+        }
+    }
+
+    /// the whitelist contract's own stage table (the `stages=` witness of a `wl_edit` line)
+    fn reread_sched(&self, which: char) -> Option<Sched> {
+        let (a, incl) = match which {
+            'a' => (self.wl_a.clone()?, self.sc.as_ref()?.wl.as_ref()?.incl),
+            _ => (self.wl_b.clone()?, self.sc.as_ref()?.wlb.as_ref()?.incl),
+        };
+        let w = self.w.as_ref()?;
+        if incl {
+            let r = w.query(&a, &json!({"stages":{}})).ok()?;
+            let stages = r["stages"]
+                .as_array()?
+                .iter()
+                .filter_map(|e| {
+                    let s = if e.get("stage").is_some() { &e["stage"] } else { e };
+                    Some(St { price: jcoin_to_c(&s["mint_price"])?, start: jnanos(&s["start_time"])?, end: jnanos(&s["end_time"])? })
+                })
+                .collect();
+            Some(Sched { incl, stages })
+        } else {
+            let r = w.query(&a, &json!({"config":{}})).ok()?;
+            Some(Sched { incl, stages: vec![St { price: jcoin_to_c(&r["mint_price"])?, start: jnanos(&r["start_time"])?, end: jnanos(&r["end_time"])? }] })
+        }
     }
 
     fn do_mint(&mut self, line: &str) -> Result<(), String> {
         let kind = self.kind();
-        let who = addr(kv_u64(line, "who").expect("who"));
+        let whoid = kv_u64(line, "who").expect("who");
+        let who = addr(whoid);
         let admin = kv_bool(line, "admin").expect("admin");
         let funds: Vec<(u64, u128)> = kv_pairs(line, "funds").expect("funds").into_iter().map(|(d, a)| (d as u64, a)).collect();
         let to = kv_opt_u64(line, "to").unwrap_or(None).map(addr);
@@ -417,6 +767,9 @@ impl S {
         let direct = kv_bool(line, "direct").unwrap_or(false);
         let minter = self.minter.clone();
         let src = self.src_coll.clone();
+        // the attached whitelist's kind decides which tree the proof must come from
+        let tiered = self.ghost().sched().map(|s| s.incl).unwrap_or(false);
+        let fwd = self.fwd;
         let w = self.world();
         let r = if admin {
             let rcp = to.unwrap_or_else(|| addr(RECIP));
@@ -433,14 +786,21 @@ impl S {
                     if direct {
                         // a stranger pretends to be a collection
                         w.exec(&who, &minter, &json!({"receive_nft":{"sender": who, "token_id": tok, "msg": inner}}), &funds)
+                    } else if fwd {
+                        w.exec(&who, &src.unwrap(), &json!({"forward":{"minter": minter, "token_id": tok}}), &funds)
                     } else {
                         w.exec(&who, &src.unwrap(), &json!({"send_nft":{"contract": minter, "token_id": tok, "msg": inner}}), &funds)
                     }
                 }
                 k if k.is_merkle() => {
-                    let whoid = kv_u64(line, "who").unwrap();
                     let proof: Vec<String> = match BUYERS.iter().position(|b| *b == whoid) {
-                        Some(i) => buyers_tree().1[i].clone(),
+                        Some(i) => {
+                            if tiered {
+                                buyers_tree(blake16).1[i].clone()
+                            } else {
+                                buyers_tree(sha).1[i].clone()
+                            }
+                        }
                         None => vec![],
                     };
                     w.exec(&who, &minter, &json!({"mint":{"proof_hashes": proof, "stage": null, "allocation": null}}), &funds)
@@ -457,9 +817,14 @@ impl S {
         let air = parse_c(kv(line, "air").expect("air")).expect("air");
         let air_bps = kv_u64(line, "air_bps").expect("air_bps");
         let dev = kv_u64(line, "dev").expect("dev");
+        // optional: move the factory's CURRENT minimum mint price (a base minter must keep charging the captured one)
+        let min: Value = match kv(line, "min").and_then(parse_c) {
+            Some(c) => jcoin(c),
+            None => Value::Null,
+        };
         let base = |ext: Value| {
             json!({"update_params": {"code_id": null, "add_sg721_code_ids": null, "rm_sg721_code_ids": null, "frozen": null,
-            "creation_fee": null, "min_mint_price": null, "mint_fee_bps": fee_bps, "max_trading_offset_secs": null, "extension": ext}})
+            "creation_fee": null, "min_mint_price": min.clone(), "mint_fee_bps": fee_bps, "max_trading_offset_secs": null, "extension": ext}})
         };
         let msg = match kind.factory() {
             FactoryKind::Vending => base(json!({"max_token_limit": null, "max_per_address_limit": null, "airdrop_mint_price": jcoin(air),
@@ -475,47 +840,136 @@ impl S {
         let factory = self.factory.clone();
         self.world().sudo(&factory, &msg).map(|_| ())
     }
-}
 
-fn sha(b: &[u8]) -> [u8; 32] {
-    use sha2::{Digest, Sha256};
-    let mut h = Sha256::new();
-    h.update(b);
-    h.finalize().into()
-}
-/// sorted-pair SHA-256 tree over the BUYERS' addresses (what whitelist-merkletree verifies): (root, proof per buyer)
-fn buyers_tree() -> (String, Vec<Vec<String>>) {
-    let mut level: Vec<[u8; 32]> = BUYERS.iter().map(|b| sha(addr(*b).as_bytes())).collect();
-    let mut idx: Vec<usize> = (0..level.len()).collect();
-    let mut proofs: Vec<Vec<String>> = vec![vec![]; level.len()];
-    while level.len() > 1 {
-        for (i, ix) in idx.iter_mut().enumerate() {
-            let sib = *ix ^ 1;
-            if sib < level.len() {
-                proofs[i].push(hex::encode(level[sib]));
+    /// `wl_edit which=<a|b> op=<start|end|price|rmstage|addstage> [k=<stage>] [t=<ns>] [e=<ns>] [p=<d:n>] [by=<account>]`
+    fn do_wl_edit(&mut self, line: &str) -> Result<(), String> {
+        let which = kv(line, "which").expect("which").chars().next().unwrap();
+        let (a, incl) = match which {
+            'a' => (self.wl_a.clone(), self.sc.as_ref().unwrap().wl.as_ref().map(|s| s.incl)),
+            _ => (self.wl_b.clone(), self.sc.as_ref().unwrap().wlb.as_ref().map(|s| s.incl)),
+        };
+        let (Some(a), Some(incl)) = (a, incl) else { return Err("no such whitelist".into()) };
+        let op = kv(line, "op").expect("op");
+        let k = kv_u64(line, "k").unwrap_or(0);
+        let t = kv_u64(line, "t").unwrap_or(0);
+        let e = kv_u64(line, "e").unwrap_or(0);
+        let p = kv(line, "p").and_then(parse_c).unwrap_or((0, 0));
+        let by = addr(kv_u64(line, "by").unwrap_or(WL_ADMIN));
+        let kind = self.kind();
+        let msg = match (incl, op) {
+            (false, "start") => json!({"update_start_time": jtime(t)}),
+            (false, "end") => json!({"update_end_time": jtime(t)}),
+            (true, "start") => json!({"update_stage_config": {"stage_id": k, "start_time": jtime(t)}}),
+            (true, "end") => json!({"update_stage_config": {"stage_id": k, "end_time": jtime(t)}}),
+            (true, "price") => json!({"update_stage_config": {"stage_id": k, "mint_price": jcoin(p)}}),
+            (true, "rmstage") => json!({"remove_stage": {"stage_id": k}}),
+            (true, "addstage") => {
+                let mut stage = json!({"name": "added", "start_time": jtime(t), "end_time": jtime(e), "mint_price": jcoin(p), "mint_count_limit": null});
+                let members: Vec<Value> = if kind.is_flex() {
+                    BUYERS.iter().map(|b| json!({"address": addr(*b), "mint_count": 30})).collect()
+                } else {
+                    stage["per_address_limit"] = json!(30);
+                    BUYERS.iter().map(|b| Value::String(addr(*b))).collect()
+                };
+                json!({"add_stage": {"stage": stage, "members": members}})
             }
-            *ix /= 2;
-        }
-        let mut next = vec![];
-        for ch in level.chunks(2) {
-            if ch.len() == 2 {
-                let mut pair = [ch[0], ch[1]];
-                pair.sort_unstable();
-                next.push(sha(&pair.concat()));
-            } else {
-                next.push(ch[0]);
-            }
-        }
-        level = next;
+            _ => return Err("edit not offered by this whitelist kind".into()),
+        };
+        self.world().exec(&by, &a, &msg, &[]).map(|_| ())
     }
-    (hex::encode(level[0]), proofs)
-}
 
-/// floor(x * bps / 10^4) without overflow for x < 2^114
-fn mul_bps(x: u128, bps: u64) -> u128 {
-    let q = x / 10_000;
-    let r = x % 10_000;
-    q * bps as u128 + r * bps as u128 / 10_000
+    /// ghost bookkeeping of an ACCEPTED whitelist edit: exactly what was sent
+    fn ghost_wl_edit(&mut self, line: &str) {
+        let which = kv(line, "which").unwrap().chars().next().unwrap();
+        let op = kv(line, "op").unwrap().to_string();
+        let k = kv_u64(line, "k").unwrap_or(0) as usize;
+        let t = kv_u64(line, "t").unwrap_or(0);
+        let e = kv_u64(line, "e").unwrap_or(0);
+        let p = kv(line, "p").and_then(parse_c).unwrap_or((0, 0));
+        let Some(s) = self.g.as_mut().unwrap().wl_mut(which) else { return };
+        match op.as_str() {
+            "start" => {
+                if let Some(st) = s.stages.get_mut(k) {
+                    st.start = t
+                }
+            }
+            "end" => {
+                if let Some(st) = s.stages.get_mut(k) {
+                    st.end = t
+                }
+            }
+            "price" => {
+                if let Some(st) = s.stages.get_mut(k) {
+                    st.price = p
+                }
+            }
+            "rmstage" => s.stages.truncate(k),
+            "addstage" => s.stages.push(St { price: p, start: t, end: e }),
+            _ => {}
+        }
+    }
+
+    /// `other msg=<variant> who=<a> funds=<…> n=<number used for numeric / timestamp arguments>`
+    fn do_other(&mut self, line: &str) -> Result<(), String> {
+        let name = kv(line, "msg").expect("msg");
+        let who = addr(kv_u64(line, "who").expect("who"));
+        let n = kv_u64(line, "n").unwrap_or(1);
+        let funds: Vec<(u64, u128)> = kv_pairs(line, "funds").expect("funds").into_iter().map(|(d, a)| (d as u64, a)).collect();
+        let Some(msg) = build_variant(self.kind(), name, n) else { return Err("no such ExecuteMsg variant".into()) };
+        let minter = self.minter.clone();
+        self.world().exec(&who, &minter, &msg, &funds).map(|_| ())
+    }
+
+    /// what a successful mint must do, from ghost state and the fee-schedule oracle
+    fn expect_mint(&self, g: &Ghost, who: u64, admin: bool) -> Expect {
+        let kind = self.kind();
+        let sc = self.sc.as_ref().unwrap();
+        let ((pd, pn), bps) = price_in_force(kind, g, admin);
+        let mut e = Expect { price: (pd, pn), ..Default::default() };
+        e.seller = if kind == MinterKind::TokenMerge { ADMIN } else { sc.pay.unwrap_or(ADMIN) };
+        let mut flows: Vec<Flow> = vec![];
+        if kind == MinterKind::Base {
+            e.fee = pn;
+            flows = oracle_fair_burn(&self.minter, pn);
+        } else if !(kind == MinterKind::TokenMerge && !admin) {
+            e.fee = mul_bps(pn, bps);
+            if e.fee > 0 {
+                let dev = if kind.is_open_edition() { Some(g.dev) } else { None };
+                flows = oracle_distribute((pd, e.fee), kind.is_featured(), dev);
+            }
+        }
+        for f in &flows {
+            if let Flow::Send(a, _, _) = f {
+                if !e.fee_recips.contains(a) {
+                    e.fee_recips.push(*a);
+                }
+            }
+        }
+        if kind != MinterKind::Base && !(kind == MinterKind::TokenMerge && !admin) && pn > e.fee {
+            flows.push(Flow::Send(e.seller, pd, pn - e.fee));
+        }
+        if pn != 0 {
+            *e.delta.entry((who, pd)).or_insert(0) -= pn as i128;
+        }
+        let mut out: u128 = 0;
+        for f in flows {
+            match f {
+                Flow::Send(a, d, n) => {
+                    *e.delta.entry((a, d)).or_insert(0) += n as i128;
+                    out += n;
+                }
+                Flow::Burn(d, n) => {
+                    *e.burned.entry(d).or_insert(0) += n;
+                    out += n;
+                }
+            }
+        }
+        // whatever the schedule does not pass on would stay in the minter (never on the unchanged tree)
+        if pn != out {
+            *e.delta.entry((addr_id(&self.minter), pd)).or_insert(0) += pn as i128 - out as i128;
+        }
+        e
+    }
 }
 
 impl Sut for S {
@@ -523,16 +977,21 @@ impl Sut for S {
         let sc = Sc::parse(header);
         let kind = sc.kind();
         let ek = std::mem::take(&mut self.err_kinds);
+        let dg = std::mem::take(&mut self.diag);
+        let df = std::mem::take(&mut self.diag_first);
         *self = S::new();
         self.err_kinds = ek;
+        self.diag = dg;
+        self.diag_first = df;
         self.sc = Some(sc.clone());
+        self.fee_accts = sc.fee_accts();
         self.w = Some(World::new(sc.now));
         let mut p = self.world().default_params(kind);
         p.min_mint_price = (sc.d, sc.min);
         p.mint_fee_bps = sc.fee_bps;
         p.airdrop_mint_price = sc.air;
         p.airdrop_mint_fee_bps = sc.air_bps;
-        p.dev_fee_address = sc.dev;
+        p.dev_fee_address = sc.devs[0];
         let factory = self.world().new_factory(kind.factory(), &p).expect("factory");
         let mut extra: Vec<String> = vec![factory.clone()];
         self.world().fund(&addr(ADMIN), 0, p.creation_fee.1);
@@ -542,16 +1001,24 @@ impl Sut for S {
         a.mint_price = (sc.d, sc.price);
         a.payment_address = sc.pay;
         a.per_address_limit = 3;
-        a.num_tokens = Some(60);
+        a.num_tokens = Some(sc.ntok.unwrap_or(60) as u32);
         if kind.is_open_edition() {
-            a.num_tokens = if sc.cap { Some(60) } else { None };
+            a.num_tokens = if sc.cap { Some(sc.ntok.unwrap_or(60) as u32) } else { None };
             a.end_time = Some(sc.start + 30 * DAY);
             a.per_address_limit = 5;
         }
         if let Some(p) = sc.pal {
             a.per_address_limit = p as u32;
         }
-        if kind == MinterKind::TokenMerge {
+        if kind == MinterKind::TokenMerge && kv_bool(header, "fwd").unwrap_or(false) {
+            // corpus only: the listed "collection" is a contract that forwards attached funds with the token
+            let code = self.world().app.store_code(forwarder_box());
+            let fw = self.world().instantiate(code, &addr(MERGER), &json!({}), &[], None).expect("forwarder");
+            a.mint_tokens = vec![(fw.clone(), 1)];
+            extra.push(fw.clone());
+            self.src_coll = Some(fw);
+            self.fwd = true;
+        } else if kind == MinterKind::TokenMerge {
             // source collection: a base-minter collection whose creator (MERGER) mints three 1/1 tokens
             let pb = self.world().default_params(MinterKind::Base);
             let fb = self.world().new_factory(FactoryKind::Base, &pb).expect("base factory");
@@ -569,7 +1036,8 @@ impl Sut for S {
             extra.extend([fb, mb, cb.clone()]);
             self.src_coll = Some(cb);
         }
-        if kind != MinterKind::TokenMerge && kind != MinterKind::Base {
+        let has_wl = kind != MinterKind::TokenMerge && kind != MinterKind::Base;
+        if has_wl {
             if let Some(spec) = &sc.wl {
                 let wa = self.make_wl(kind, spec);
                 a.whitelist = Some(wa.clone());
@@ -590,14 +1058,28 @@ impl Sut for S {
         self.factory = factory;
         self.minter = minter;
         self.coll = coll;
+        self.g = Some(Ghost {
+            public: if kind == MinterKind::Base { (0, sc.min) } else { (sc.d, sc.price) },
+            discount: None,
+            att: if has_wl && sc.wl.is_some() { Some('a') } else { None },
+            wla: if has_wl { sc.wl.clone() } else { None },
+            wlb: if has_wl { sc.wlb.clone() } else { None },
+            fee_bps: sc.fee_bps,
+            air: sc.air,
+            air_bps: sc.air_bps,
+            dev: sc.devs[0],
+            now: sc.now,
+        });
         let xaccts: Vec<u64> = extra.iter().map(|s| addr_id(s)).collect();
         self.accts = FIXED_ACCTS.iter().copied().chain(xaccts.iter().copied()).collect();
         let sheet = self.sheet();
         let sup = self.supplies();
         let init: Vec<String> = sheet.iter().filter(|(_, n)| *n != 0).map(|((a, d), n)| format!("{a}:{d}:{n}")).collect();
         let sup0: Vec<String> = DENOMS.iter().zip(sup.iter()).map(|(d, n)| format!("{d}:{n}")).collect();
+        // the model gets the whitelists only where the minter has them
+        let hdr = if has_wl { header.to_string() } else { header.split(' ').map(|w| if w.starts_with("wl=") { "wl=-" } else if w.starts_with("wlb=") { "wlb=-" } else { w }).collect::<Vec<_>>().join(" ") };
         let m = format!(
-            "{header} xaccts={} minter={} admin={} init={} sup0={}",
+            "{hdr} xaccts={} minter={} admin={} init={} sup0={}",
             fmt_list(&xaccts),
             addr_id(&self.minter),
             ADMIN,
@@ -611,13 +1093,15 @@ impl Sut for S {
         let op = line.split_whitespace().next().unwrap_or("");
         let before = self.sheet();
         let sup_before = self.supplies();
-        let view = self.view();
+        let gb = self.ghost().clone();
         let minter = self.minter.clone();
+        let kind = self.kind();
         let mut wit = String::new();
         let res: Result<(), String> = match op {
             "t" => {
                 let t = kv_u64(line, "at").expect("at");
                 self.world().set_time(t);
+                self.g.as_mut().unwrap().now = t;
                 Ok(())
             }
             "fund" => {
@@ -629,63 +1113,116 @@ impl Sut for S {
             }
             "mint" => {
                 let r = self.do_mint(line);
-                let allowed = match &r {
-                    Ok(()) => true,
+                // the witness is the OUTCOME (not an error text): an accepted call must pass every payment rule of the
+                // model; a rejected call must leave the world unchanged. `pay` is diagnostic only (drift part).
+                let pay = match &r {
+                    Ok(()) => false,
                     Err(e) => {
                         *self.err_kinds.entry(err_kind(e)).or_insert(0) += 1;
                         payment_owned(e)
                     }
                 };
-                wit = format!(" allowed={}", allowed as u8);
+                wit = format!(" allowed={} pay={}", r.is_ok() as u8, pay as u8);
                 r
             }
             "set_price" => {
                 let p = kv_u128(line, "p").expect("p");
                 let r = self.world().exec(&addr(ADMIN), &minter, &json!({"update_mint_price":{"price": p.to_string()}}), &[]).map(|_| ());
+                if r.is_ok() {
+                    let g = self.g.as_mut().unwrap();
+                    g.public.1 = p;
+                    if kind.is_vending() && g.discount.map(|d| d.1 > p).unwrap_or(false) {
+                        g.discount = None;
+                    }
+                }
                 wit = format!(" acc={}", r.is_ok() as u8);
                 r
             }
             "set_discount" => {
                 let p = kv_u128(line, "p").expect("p");
                 let r = self.world().exec(&addr(ADMIN), &minter, &json!({"update_discount_price":{"price": p.to_string()}}), &[]).map(|_| ());
+                if r.is_ok() {
+                    let g = self.g.as_mut().unwrap();
+                    g.discount = Some((g.public.0, p));
+                }
                 wit = format!(" acc={}", r.is_ok() as u8);
                 r
             }
             "rm_discount" => {
                 let r = self.world().exec(&addr(ADMIN), &minter, &json!({"remove_discount_price":{}}), &[]).map(|_| ());
+                if r.is_ok() {
+                    self.g.as_mut().unwrap().discount = None;
+                }
                 wit = format!(" acc={}", r.is_ok() as u8);
                 r
             }
             "set_wl" => {
-                let which = kv(line, "which").expect("which");
-                let sc = self.sc.clone().unwrap();
-                let (spec, a) = if which == "a" { (sc.wl.clone(), self.wl_a.clone()) } else { (sc.wlb.clone(), self.wl_b.clone()) };
-                let spec = spec.expect("set_wl: whitelist not in the case header");
-                let lspec = WlSpec {
-                    price: parse_c(kv(line, "price").unwrap()).unwrap(),
-                    start: kv_u64(line, "start").unwrap(),
-                    end: kv_u64(line, "end").unwrap(),
+                let which = kv(line, "which").expect("which").chars().next().unwrap();
+                let a = if which == 'a' { self.wl_a.clone() } else { self.wl_b.clone() };
+                let r = match a {
+                    Some(a) => self.world().exec(&addr(ADMIN), &minter, &json!({"set_whitelist":{"whitelist": a}}), &[]).map(|_| ()),
+                    None => Err("no such whitelist in this case".into()),
                 };
-                assert_eq!(spec, lspec, "set_wl line must repeat the header's whitelist parameters");
-                let r = self.world().exec(&addr(ADMIN), &minter, &json!({"set_whitelist":{"whitelist": a.unwrap()}}), &[]).map(|_| ());
+                if r.is_ok() {
+                    self.g.as_mut().unwrap().att = Some(which);
+                }
                 wit = format!(" acc={}", r.is_ok() as u8);
+                r
+            }
+            "wl_edit" => {
+                let which = kv(line, "which").expect("which").chars().next().unwrap();
+                let r = self.do_wl_edit(line);
+                if r.is_ok() {
+                    self.ghost_wl_edit(line);
+                }
+                let re = self.reread_sched(which);
+                let gs = if which == 'a' { self.ghost().wla.clone() } else { self.ghost().wlb.clone() };
+                if re.is_some() && re != gs {
+                    self.diag("whitelist-table-vs-what-was-sent", format!("`{line}`: whitelist says {} harness sent {}", fmt_sched(&re), fmt_sched(&gs)));
+                }
+                wit = format!(" acc={} stages={}", r.is_ok() as u8, fmt_sched(&re.or(gs)));
                 r
             }
             "sudo" => {
                 let r = self.do_sudo(line);
+                if r.is_ok() {
+                    let g = self.g.as_mut().unwrap();
+                    g.fee_bps = kv_u64(line, "fee_bps").unwrap();
+                    g.air = parse_c(kv(line, "air").unwrap()).unwrap();
+                    g.air_bps = kv_u64(line, "air_bps").unwrap();
+                    g.dev = kv_u64(line, "dev").unwrap();
+                }
                 wit = format!(" acc={}", r.is_ok() as u8);
                 r
             }
+            "other" => self.do_other(line),
             _ => Err("bad-op".into()),
         };
         let after = self.sheet();
         let sup_after = self.supplies();
+        if op == "other" {
+            // witness: the observed net bank effect, as payments made by the caller
+            let who = kv_u64(line, "who").unwrap_or(0);
+            let mut mv: Vec<String> = vec![];
+            for (i, ((a, d), n)) in after.iter().enumerate() {
+                if *a != who && *n > before[i].1 {
+                    mv.push(format!("send:{a}:{d}:{}", n - before[i].1));
+                }
+            }
+            for (i, d) in DENOMS.iter().enumerate() {
+                if sup_before[i] > sup_after[i] {
+                    mv.push(format!("burn:{d}:{}", sup_before[i] - sup_after[i]));
+                }
+            }
+            wit = format!(" acc={} moves={}", res.is_ok() as u8, if mv.is_empty() { "-".into() } else { mv.join(",") });
+        }
         let out = format!("{} {}", if res.is_ok() { "ok" } else { "err" }, self.obs(&after, &sup_after));
-        self.last = Some(Last { line: line.to_string(), ok: res.is_ok(), before, after, sup_before, sup_after, view });
+        self.last = Some(Last { line: line.to_string(), ok: res.is_ok(), before, after, sup_before, sup_after, g: gb });
         (format!("{line}{wit}"), out)
     }
 
-    /// Direct transcription of the property on the implementation's own balance sheets and configuration queries.
+    /// Direct transcription of the property on the implementation's own balance sheets, against what the harness
+    /// itself configured (ghost state) and the fee-schedule oracle.
     fn monitor(&mut self) -> Option<(String, String)> {
         let l = self.last.clone()?;
         let kind = self.kind();
@@ -697,7 +1234,7 @@ impl Sut for S {
             let i = l.before.iter().position(|(k, _)| *k == (a, d)).unwrap();
             l.after[i].1 as i128 - l.before[i].1 as i128
         };
-        // (1) the minter contract never holds money after any operation
+        // (1) the minter contract never holds money after any operation (mint, configuration, ANY other message)
         for d in DENOMS {
             if delta(minter_id, d) != 0 {
                 return bad("minter-balance-changed", format!("minter balance in denom {d} changed by {}", delta(minter_id, d)));
@@ -725,6 +1262,23 @@ impl Sut for S {
             }
             return None;
         }
+        if op == "other" {
+            // any other message: besides (1) and (2), nobody but the caller may lose money, nothing may be created
+            let who = kv_u64(&l.line, "who").unwrap_or(0);
+            for a in &self.accts {
+                for d in DENOMS {
+                    if *a != who && delta(*a, d) < 0 {
+                        return bad("third-party-debited", format!("account {a} denom {d} changed by {}", delta(*a, d)));
+                    }
+                }
+            }
+            for i in 0..DENOMS.len() {
+                if l.sup_after[i] > l.sup_before[i] {
+                    return bad("coins-created", format!("denom {}: supply grew", DENOMS[i]));
+                }
+            }
+            return None;
+        }
         if op != "mint" {
             if l.before != l.after || l.sup_before != l.sup_after {
                 return bad("config-op-moved-funds", "a configuration update moved funds".into());
@@ -732,83 +1286,47 @@ impl Sut for S {
             return None;
         }
         // successful mint
-        let sc = self.sc.clone().unwrap();
         let who = kv_u64(&l.line, "who").unwrap();
         let admin = kv_bool(&l.line, "admin").unwrap();
         let funds: Vec<(u64, u128)> = kv_pairs(&l.line, "funds").unwrap().into_iter().map(|(d, a)| (d as u64, a)).filter(|(_, a)| *a != 0).collect();
-        let ((pd, pn), bps) = self.price_in_force(&l.view, admin);
+        let e = self.expect_mint(&l.g, who, admin);
+        let (pd, pn) = e.price;
         // (4) accepted payment = price in force (nothing when zero)
         let want: Vec<(u64, u128)> = if pn == 0 { vec![] } else { vec![(pd, pn)] };
         if funds != want {
-            return bad("accepted-payment-ne-price", format!("accepted funds {:?} but the price in force is {:?}", funds, want));
+            return bad("accepted-payment-ne-price", format!("accepted funds {:?} but the price in force is {:?} ({})", funds, want, price_kind(kind, &l.g, admin)));
         }
-        // (5) where it went
-        let fee = if kind == MinterKind::Base { pn } else { mul_bps(pn, bps) };
-        if fee > pn {
-            return bad("fee-gt-price", format!("fee {fee} > price {pn}"));
+        if e.fee > pn {
+            return bad("fee-gt-price", format!("fee {} > price {pn}", e.fee));
         }
-        let seller = if kind == MinterKind::TokenMerge { ADMIN } else { sc.pay.unwrap_or(ADMIN) };
-        let seller_amt = (pn - fee) as i128;
-        let mut recips: Vec<u64> = vec![ID_FOUNDATION, ID_LAUNCHPAD_DAO, ID_LIQUIDITY_DAO, ID_FAIRBURN_POOL];
-        if let Some(dv) = l.view.dev {
-            recips.push(dv);
-        }
+        // (5) where it went: every account's change = -(what it attached) + what the fee schedule and the payout send to it
+        let exp = |a: u64, d: u64| -> i128 { e.delta.get(&(a, d)).copied().unwrap_or(0) };
+        let recips: Vec<u64> = e.fee_recips.iter().copied().filter(|a| *a != who && *a != e.seller).collect();
         for (i, d) in DENOMS.iter().enumerate() {
             let burned = l.sup_before[i] as i128 - l.sup_after[i] as i128;
-            let is_pd = *d == pd;
-            let mut want_payer = if is_pd { -(pn as i128) } else { 0 };
-            if is_pd && seller == who {
-                want_payer += seller_amt;
+            let want_burn = e.burned.get(d).copied().unwrap_or(0) as i128;
+            if delta(who, *d) != exp(who, *d) {
+                return bad("payer-delta-ne-price", format!("denom {d}: payer delta {} != {} (price {pn}, payer's own inflows netted)", delta(who, *d), exp(who, *d)));
             }
-            if !recips.contains(&who) && delta(who, *d) != want_payer {
-                return bad("payer-delta-ne-price", format!("denom {d}: payer delta {} != {}", delta(who, *d), want_payer));
-            }
-            if seller != who && !recips.contains(&seller) {
-                let want_s = if is_pd { seller_amt } else { 0 };
-                if delta(seller, *d) != want_s {
-                    return bad("seller-ne-price-minus-fee", format!("denom {d}: seller delta {} != price - fee = {}", delta(seller, *d), want_s));
-                }
+            if e.seller != who && delta(e.seller, *d) != exp(e.seller, *d) {
+                return bad("seller-ne-price-minus-fee", format!("denom {d}: seller delta {} != {} (price - fee = {}, seller's fee shares netted)", delta(e.seller, *d), exp(e.seller, *d), pn - e.fee));
             }
             let got_fee: i128 = recips.iter().map(|a| delta(*a, *d)).sum::<i128>() + burned;
-            let want_fee = if is_pd { fee as i128 } else { 0 };
-            if !recips.contains(&who) && !recips.contains(&seller) && got_fee != want_fee {
-                return bad("fee-routing", format!("denom {d}: fee recipients + burned got {got_fee}, network fee is {want_fee}"));
+            let want_fee: i128 = recips.iter().map(|a| exp(*a, *d)).sum::<i128>() + want_burn;
+            if got_fee != want_fee {
+                return bad("fee-routing", format!("denom {d}: fee recipients + burned got {got_fee}, the network fee routed to them is {want_fee}"));
             }
-            // the fee schedule (C06 ratios) with the flag / developer THIS contract is documented to use:
-            // open edition: developer gets ceil(fee/2); liquidity DAO ceil(rest/8) on *-featured minters, ceil(rest/5)
-            // elsewhere; launchpad DAO the remainder; base minter: floor(fee/2) burned, the rest to the fair-burn pool
-            if is_pd && !recips.contains(&who) && !recips.contains(&seller) {
-                let want: Vec<(u64, i128)> = if kind == MinterKind::Base {
-                    vec![(ID_FAIRBURN_POOL, (fee - fee / 2) as i128)]
-                } else {
-                    let mut v = vec![];
-                    let mut rest = fee;
-                    if kind.is_open_edition() {
-                        let dv = l.view.dev.unwrap_or(0);
-                        let df = fee - fee / 2;
-                        v.push((dv, df as i128));
-                        rest = fee - df;
-                    }
-                    let den: u128 = if kind.is_featured() { 8 } else { 5 };
-                    let liq = rest / den + if rest % den == 0 { 0 } else { 1 };
-                    v.push((ID_LIQUIDITY_DAO, liq as i128));
-                    v.push((ID_LAUNCHPAD_DAO, (rest - liq) as i128));
-                    v
-                };
-                for (a, amt) in &want {
-                    if delta(*a, *d) != *amt {
-                        return bad("fee-schedule", format!("denom {d}: fee {fee}: recipient {a} got {} but the schedule gives {amt}", delta(*a, *d)));
-                    }
-                }
-                if kind == MinterKind::Base && burned != (fee / 2) as i128 {
-                    return bad("fee-schedule", format!("base minter burned {burned}, schedule says floor(fee/2) = {}", fee / 2));
+            for a in &recips {
+                if delta(*a, *d) != exp(*a, *d) {
+                    return bad("fee-schedule", format!("denom {d}: fee {}: recipient {a} got {} but sg1's schedule (flag/developer of this contract) gives {}", e.fee, delta(*a, *d), exp(*a, *d)));
                 }
             }
-            if burned != 0 && kind != MinterKind::Base {
-                return bad("unexpected-burn", format!("denom {d}: {burned} burned by a mint"));
+            if burned != want_burn {
+                let key = if kind == MinterKind::Base { "fee-schedule" } else { "unexpected-burn" };
+                return bad(key, format!("denom {d}: {burned} burned by a mint, the schedule burns {want_burn}"));
             }
             for a in &self.accts {
-                if *a != who && *a != seller && !recips.contains(a) && delta(*a, *d) != 0 {
+                if *a != who && *a != e.seller && !recips.contains(a) && delta(*a, *d) != exp(*a, *d) {
                     return bad("bystander-changed", format!("account {a} denom {d} changed by {}", delta(*a, *d)));
                 }
             }
@@ -856,6 +1374,23 @@ fn bps_class(b: u64) -> String {
     }
 }
 
+/// a stage table starting at `t0`: one stage for the single-stage kinds, 1–3 for the tiered kinds (contiguous or gapped)
+fn gen_sched(rng: &mut Rng, tiered: bool, dd: u64, t0: u64, price: &mut dyn FnMut(&mut Rng) -> u128) -> Sched {
+    let n = if tiered { 1 + rng.below(3) } else { 1 };
+    let mut stages: Vec<St> = vec![];
+    let mut t = t0;
+    for _ in 0..n {
+        let end = t + rng.range(100, 1500) * SEC;
+        let mut p = price(rng);
+        while stages.iter().any(|s| s.price.1 == p) {
+            p += 1;
+        }
+        stages.push(St { price: (dd, p), start: t, end });
+        t = if rng.chance(1, 2) { end } else { end + rng.range(1, 400) * SEC };
+    }
+    Sched { incl: tiered, stages }
+}
+
 fn gen_scenario(rng: &mut Rng, v: usize) -> Sc {
     let kind = MinterKind::from_idx(v);
     let now = GENESIS + DAY + rng.below(1000) * SEC;
@@ -892,44 +1427,50 @@ fn gen_scenario(rng: &mut Rng, v: usize) -> Sc {
         price = 0;
         min = 0;
     }
-    let a_s = now + rng.range(500, 1500) * SEC;
-    let a_e = a_s + rng.range(100, 2000) * SEC;
-    let start = match rng.below(4) {
-        0 => a_e,                          // public opens exactly when the whitelist closes
-        1 => a_s + (a_e - a_s) / 2,        // public start inside the whitelist window
-        2 => a_e + rng.range(1, 500) * SEC, // gap
-        _ => a_s,                          // whitelist opens at public start
-    };
-    let wl_price = |rng: &mut Rng| -> C {
-        let dd = if rng.chance(1, 12) { 9 } else { d };
-        (dd, if rng.chance(1, 5) { 0 } else { price_grid(rng) })
-    };
     let has_wl = kind != MinterKind::TokenMerge && kind != MinterKind::Base;
-    let wl = if has_wl && rng.chance(3, 4) { Some(WlSpec { price: wl_price(rng), start: a_s, end: a_e }) } else { None };
-    let wlb = if has_wl && rng.chance(1, 2) {
-        let b_s = now + rng.range(400, 1600) * SEC;
-        // SetWhitelist demands the minter's denom and at least the factory minimum
-        Some(WlSpec { price: (d, min + if rng.chance(1, 3) { 0 } else { price_grid(rng) }), start: b_s, end: b_s + rng.range(100, 2500) * SEC })
+    let wl = if has_wl && rng.chance(3, 4) {
+        let dd = if rng.chance(1, 12) { 9 } else { d };
+        let tiered = rng.chance(1, 2);
+        let t0 = now + rng.range(500, 1500) * SEC;
+        Some(gen_sched(rng, tiered, dd, t0, &mut |rng: &mut Rng| if rng.chance(1, 5) { 0 } else { price_grid(rng) }))
     } else {
         None
     };
-    Sc {
-        v,
-        d,
-        price,
-        pay: if rng.chance(1, 2) { Some(PAYADDR) } else { None },
-        cap,
-        fee_bps,
-        air: (air_d, air_amt),
-        air_bps,
-        dev: DEV_A,
-        min,
-        wl,
-        wlb,
-        now,
-        start,
-        pal: None,
-    }
+    let wlb = if has_wl && rng.chance(1, 2) {
+        // SetWhitelist demands the minter's denom and at least the factory minimum
+        let tiered = rng.chance(1, 2);
+        let t0 = now + rng.range(400, 1600) * SEC;
+        Some(gen_sched(rng, tiered, d, t0, &mut |rng: &mut Rng| min + if rng.chance(1, 3) { 0 } else { price_grid(rng) }))
+    } else {
+        None
+    };
+    let (a_s, a_e) = match &wl {
+        Some(w) => (w.stages[0].start, w.stages.last().unwrap().end),
+        None => {
+            let s = now + rng.range(500, 1500) * SEC;
+            (s, s + rng.range(100, 2000) * SEC)
+        }
+    };
+    let start = match rng.below(4) {
+        0 => a_e,                           // public opens exactly when the whitelist closes
+        1 => a_s + (a_e - a_s) / 2,         // public start inside the whitelist window
+        2 => a_e + rng.range(1, 500) * SEC, // gap
+        _ => a_s,                           // whitelist opens at public start
+    };
+    // aliasing: the payment address / developer may be a fee recipient, a payer, each other
+    let devs = match rng.below(12) {
+        0 | 1 => [BUYERS[1], DEV_B],
+        2 => [PAYADDR, DEV_A],
+        _ => [DEV_A, DEV_B],
+    };
+    let pay = match rng.below(12) {
+        0..=4 => None,
+        5..=8 => Some(PAYADDR),
+        9 => Some(ID_LIQUIDITY_DAO),
+        10 => Some(BUYERS[0]),
+        _ => Some(devs[0]),
+    };
+    Sc { v, d, price, pay, cap, fee_bps, air: (air_d, air_amt), air_bps, devs, min, wl, wlb, now, start, pal: None, ntok: None }
 }
 
 #[derive(Clone, Copy, Debug, PartialEq)]
@@ -945,7 +1486,7 @@ enum Fault {
     Double,
     Random,
     Broke,
-    /// pay another configured price (public instead of discount, whitelist price outside its window, airdrop price…)
+    /// pay another configured price (public instead of discount, another stage's price, airdrop price…)
     AltPrice,
 }
 
@@ -991,6 +1532,73 @@ fn craft_funds(rng: &mut Rng, price: C, fault: Fault) -> Vec<C> {
     }
 }
 
+/// every configured price other than the one in force (what a confused or cheating payer might attach instead)
+fn alt_prices(g: &Ghost, price: C) -> Vec<C> {
+    let mut alts: Vec<C> = vec![g.public, g.air];
+    alts.extend(g.discount);
+    for s in [&g.wla, &g.wlb].into_iter().flatten() {
+        alts.extend(s.stages.iter().map(|st| st.price));
+    }
+    alts.retain(|c| *c != price && c.1 != 0);
+    alts.sort();
+    alts.dedup();
+    alts
+}
+
+/// the interesting instants of the case as the harness configured it: public start and every stage edge, each -1/0/+1 ns
+fn instants(g: &Ghost, sc: &Sc) -> Vec<u64> {
+    let mut v: Vec<u64> = vec![sc.start - 1, sc.start, sc.start + 1, sc.start + 13 * 3600 * SEC];
+    for w in [&g.wla, &g.wlb].into_iter().flatten() {
+        for s in &w.stages {
+            v.extend([s.start.saturating_sub(1), s.start, s.start + 1, s.end.saturating_sub(1), s.end, s.end + 1]);
+        }
+    }
+    v.sort();
+    v.dedup();
+    v
+}
+
+/// Boundary triple in ONE block by ONE sender: one unit too little (or nothing), one unit too much, then exactly the price
+/// in force as the harness knows it. `eeo` (zero price: `eo`) = both wrong amounts rejected while the gates were demonstrably
+/// open (the exact payment went through right after). Returns (pattern, price kind).
+fn triple(ses: &mut Session, sut: &mut S, who: u64, admin: bool, extra: &str) -> (String, &'static str) {
+    let kind = sut.kind();
+    let g = sut.ghost().clone();
+    let ((d, n), bps) = price_in_force(kind, &g, admin);
+    let pk = price_kind(kind, &g, admin);
+    let tries: Vec<Vec<C>> = if n == 0 {
+        vec![vec![(d, 1)], vec![]]
+    } else if n == 1 {
+        vec![vec![], vec![(d, 2)], vec![(d, 1)]]
+    } else {
+        vec![vec![(d, n - 1)], vec![(d, n + 1)], vec![(d, n)]]
+    };
+    let mut pat = String::new();
+    for f in &tries {
+        let out = ses.step(sut, &format!("mint who={who} admin={}{extra} funds={}", admin as u8, fmt_pairs(f)));
+        pat.push(if out.starts_with("ok") { 'o' } else { 'e' });
+    }
+    let good = pat == "eeo" || (n == 0 && pat == "eo");
+    if good {
+        ses.mark(format!("triple-ok:{}:{pk}:{}:bps{}", kind.name(), price_class(n), bps_class(bps)));
+        ses.mark(format!("paid:{}:{pk}:{}:bps{}:native{}", kind.name(), price_class(n), bps_class(bps), (d == 0) as u8));
+    } else {
+        ses.mark(format!("triple-other:{}:{pk}:{pat}", kind.name()));
+    }
+    ses.count(&format!("triple:{pk}:{pat}"));
+    (pat, pk)
+}
+
+fn mint_extra(kind: MinterKind, admin: bool) -> String {
+    if admin {
+        format!(" to={RECIP}")
+    } else if kind == MinterKind::TokenMerge {
+        " tok=1".into()
+    } else {
+        String::new()
+    }
+}
+
 /// the deterministic price grid of the property text: 0, 1..5, 7, 9999, 10001, 10^k - 1, 10^k, 10^k + 1 (k = 1..30)
 fn full_price_grid() -> Vec<u128> {
     let mut v: Vec<u128> = vec![0, 1, 2, 3, 4, 5, 7, 9999, 10001];
@@ -1014,21 +1622,270 @@ fn base_sc(v: usize, now: u64) -> Sc {
         fee_bps: 1000,
         air: (0, 0),
         air_bps: 10_000,
-        dev: DEV_A,
+        devs: [DEV_A, DEV_B],
         min: 0,
         wl: None,
         wlb: None,
         now,
         start: now + 1000 * SEC,
         pal: None,
+        ntok: None,
+    }
+}
+
+fn big_funds() -> String {
+    let big: u128 = 1u128 << 108;
+    let all: Vec<C> = DENOMS.iter().map(|d| (*d, big)).collect();
+    fmt_pairs(&all)
+}
+
+const WL_KINDS: [usize; 9] = [0, 1, 2, 3, 4, 5, 6, 7, 8];
+const STAGE_PRICES: [u128; 6] = [1_000, 9_999, 10_001, 1_000_001, 123_456_789, (1u128 << 64) + 5];
+
+/// Stage hand-over scenarios: every (minter with whitelists) x {tiered, single-stage} pairing; at every stage edge -1/0/+1 ns
+/// a boundary triple, another stage's price (must be rejected), a same-block repeat; then (second case) a whitelist-side edit
+/// between two mints of one block.
+fn stage_cases(ses: &mut Session, sut: &mut S, rng: &mut Rng) {
+    let now = GENESIS + DAY;
+    for (ki, v) in WL_KINDS.iter().enumerate() {
+        let kind = MinterKind::from_idx(*v);
+        for tiered in [true, false] {
+            let d = if (ki + tiered as usize) % 2 == 0 { 0 } else { 7 };
+            let mut ps: Vec<u128> = STAGE_PRICES.to_vec();
+            rng.shuffle(&mut ps);
+            let t1 = now + rng.range(500, 900) * SEC;
+            let t2 = t1 + rng.range(50, 300) * SEC;
+            let t3 = t2 + rng.range(50, 300) * SEC;
+            let g3 = t3 + rng.range(2, 200) * SEC;
+            let t4 = g3 + rng.range(50, 300) * SEC;
+            let sched = if tiered {
+                // stage 2 starts in the instant stage 1 ends (contiguous), stage 3 after a gap
+                Sched { incl: true, stages: vec![St { price: (d, ps[0]), start: t1, end: t2 }, St { price: (d, ps[1]), start: t2, end: t3 }, St { price: (d, ps[2]), start: g3, end: t4 }] }
+            } else {
+                Sched { incl: false, stages: vec![St { price: (d, ps[0]), start: t1, end: t2 }] }
+            };
+            let mut sc = base_sc(*v, now);
+            sc.d = d;
+            sc.price = ps[3];
+            sc.fee_bps = *rng.pick(&[0u64, 250, 1000, 5000, 10_000]);
+            sc.pay = if rng.chance(1, 2) { Some(PAYADDR) } else { None };
+            sc.air = (0, 1);
+            sc.wl = Some(sched.clone());
+            sc.start = t1; // the public sale is open whenever no stage is
+            sc.pal = Some(5); // 150 tokens allow at most 5 per address; the buyers rotate
+            sc.ntok = Some(150);
+            let tag = if tiered { "i" } else { "x" };
+            // ---- case 1: all edges
+            ses.begin_case(sut, &sc.header());
+            for b in BUYERS {
+                ses.step(sut, &format!("fund a={b} cs={}", big_funds()));
+            }
+            let mut pts: Vec<(u64, String)> = vec![];
+            for (si, s) in sched.stages.iter().enumerate() {
+                for (nm, t) in [("start", s.start), ("end", s.end)] {
+                    for (off, lab) in [(-1i64, "-1"), (0, "+0"), (1, "+1")] {
+                        pts.push(((t as i64 + off) as u64, format!("s{}.{nm}{lab}", si + 1)));
+                    }
+                }
+            }
+            pts.sort();
+            let mut bi = 0usize;
+            for (t, lab) in pts {
+                if sut.ghost().now != t {
+                    ses.step(sut, &format!("t at={t}"));
+                }
+                let who = BUYERS[bi % BUYERS.len()];
+                bi += 1;
+                let g = sut.ghost().clone();
+                let stage = g.stage_now().map(|(i, _)| i.to_string()).unwrap_or_else(|| "-".into());
+                let (pat, pk) = triple(ses, sut, who, false, "");
+                if pat == "eeo" {
+                    ses.mark(format!("edge:{}:{tag}:{lab}:{pk}:{stage}", kind.name()));
+                }
+                // another stage's / the public price in this instant: must be rejected
+                let (cur, _) = price_in_force(kind, &g, false);
+                for alt in alt_prices(&g, cur) {
+                    let out = ses.step(sut, &format!("mint who={who} admin=0 funds={}", fmt_c(&alt)));
+                    ses.mark(format!("edge-alt:{}:{tag}:{}", kind.name(), &out[..2]));
+                }
+                // same block, same sender, again
+                let out = ses.step(sut, &format!("mint who={who} admin=0 funds={}", fmt_c(&cur)));
+                if pat == "eeo" {
+                    ses.mark(format!("repeat:{}:{}", kind.name(), &out[..2]));
+                }
+            }
+            ses.end_case();
+            // ---- case 2: a whitelist-side edit between two mints of one block
+            ses.begin_case(sut, &sc.header());
+            for b in BUYERS {
+                ses.step(sut, &format!("fund a={b} cs={}", big_funds()));
+            }
+            let who = BUYERS[ki % BUYERS.len()];
+            let mut pat = String::new();
+            if tiered {
+                let t = t2 + (t3 - t2) / 2;
+                ses.step(sut, &format!("t at={t}"));
+                let old = sched.stages[1].price;
+                let newp = (d, ps[4]);
+                pat.push_str(&ses.step(sut, &format!("mint who={who} admin=0 funds={}", fmt_c(&old)))[..1]);
+                ses.step(sut, &format!("wl_edit which=a op=price k=1 p={}", fmt_c(&newp)));
+                pat.push_str(&ses.step(sut, &format!("mint who={who} admin=0 funds={}", fmt_c(&old)))[..1]);
+                pat.push_str(&ses.step(sut, &format!("mint who={who} admin=0 funds={}", fmt_c(&newp)))[..1]);
+                // the stage is cut short: this instant becomes the last one of stage 2 (inclusive), the next ns is public
+                ses.step(sut, &format!("wl_edit which=a op=end k=1 t={t}"));
+                let (p2, _) = triple(ses, sut, who, false, "");
+                ses.step(sut, &format!("t at={}", t + 1));
+                let (p3, k3) = triple(ses, sut, who, false, "");
+                ses.mark(format!("edit-end:{}:i:{p2}:{p3}:{k3}", kind.name()));
+                // a later stage is pulled forward / removed / re-added by the whitelist admin
+                ses.step(sut, &format!("wl_edit which=a op=start k=2 t={}", t + 10));
+                ses.step(sut, &format!("t at={}", t + 10));
+                let (p4, k4) = triple(ses, sut, who, false, "");
+                ses.mark(format!("edit-start:{}:i:{p4}:{k4}", kind.name()));
+                ses.step(sut, &format!("wl_edit which=a op=rmstage k=2"));
+                ses.step(sut, &format!("wl_edit which=a op=addstage t={} e={} p={}", t4 + 10, t4 + 500, fmt_c(&(d, ps[5]))));
+                ses.step(sut, &format!("wl_edit which=a op=price k=0 p={} by={}", fmt_c(&(d, 5)), BUYERS[0]));
+                ses.step(sut, &format!("t at={}", t4 + 10));
+                let (p5, k5) = triple(ses, sut, who, false, "");
+                ses.mark(format!("edit-restage:{}:i:{p5}:{k5}", kind.name()));
+            } else {
+                let t = t1 + (t2 - t1) / 2;
+                ses.step(sut, &format!("t at={t}"));
+                let old = sched.stages[0].price;
+                let public = (d, sc.price);
+                pat.push_str(&ses.step(sut, &format!("mint who={who} admin=0 funds={}", fmt_c(&old)))[..1]);
+                // the window is cut to end NOW: end-exclusive, so the whitelist is no longer active in this very block
+                ses.step(sut, &format!("wl_edit which=a op=end t={t}"));
+                pat.push_str(&ses.step(sut, &format!("mint who={who} admin=0 funds={}", fmt_c(&old)))[..1]);
+                pat.push_str(&ses.step(sut, &format!("mint who={who} admin=0 funds={}", fmt_c(&public)))[..1]);
+                ses.step(sut, &format!("wl_edit which=a op=end t={} by={}", t + 50, BUYERS[0]));
+                ses.step(sut, &format!("wl_edit which=a op=start t={}", t + 5));
+            }
+            ses.mark(format!("edit-between:{}:{tag}:{pat}", kind.name()));
+            ses.end_case();
+        }
+    }
+}
+
+/// Aliased parties (the payment address / the developer / the payer coincide with each other or with a protocol fee
+/// recipient), and the base minter's captured price after the factory minimum moved.
+fn alias_cases(ses: &mut Session, sut: &mut S) {
+    let now = GENESIS + DAY;
+    let table: [(&str, usize, Option<u64>, [u64; 2], u64); 6] = [
+        ("seller-is-liquidity-dao", 6, Some(ID_LIQUIDITY_DAO), [DEV_A, DEV_B], BUYERS[2]),
+        ("seller-is-launchpad-dao", 1, Some(ID_LAUNCHPAD_DAO), [DEV_A, DEV_B], BUYERS[2]),
+        ("payer-is-seller", 0, Some(BUYERS[0]), [DEV_A, DEV_B], BUYERS[0]),
+        ("payer-is-developer", 7, Some(PAYADDR), [BUYERS[1], DEV_B], BUYERS[1]),
+        ("seller-is-developer", 8, Some(DEV_A), [DEV_A, DEV_B], BUYERS[3]),
+        ("payer-is-seller-is-developer", 6, Some(BUYERS[4]), [BUYERS[4], DEV_B], BUYERS[4]),
+    ];
+    for (name, v, pay, devs, who) in table {
+        let mut sc = base_sc(v, now);
+        sc.pay = pay;
+        sc.devs = devs;
+        sc.price = 1_000_003;
+        sc.air = (0, 77_777);
+        sc.air_bps = 2_500;
+        ses.begin_case(sut, &sc.header());
+        ses.step(sut, &format!("fund a={who} cs={}", big_funds()));
+        ses.step(sut, &format!("fund a={ADMIN} cs={}", big_funds()));
+        ses.step(sut, &format!("t at={}", sc.start));
+        let (pat, _) = triple(ses, sut, who, false, "");
+        ses.mark(format!("alias:{name}:public:{pat}"));
+        let (pat, _) = triple(ses, sut, ADMIN, true, &format!(" to={RECIP}"));
+        ses.mark(format!("alias:{name}:airdrop:{pat}"));
+        ses.end_case();
+    }
+    // base minter: the price is derived from the min_mint_price CAPTURED at instantiation, not from the factory's current one
+    let mut sc = base_sc(10, now);
+    sc.price = 100_000_000;
+    sc.min = 100_000_000;
+    ses.begin_case(sut, &sc.header());
+    ses.step(sut, &format!("fund a={ADMIN} cs={}", big_funds()));
+    let (p0, _) = triple(ses, sut, ADMIN, false, "");
+    ses.step(sut, &format!("sudo fee_bps=1000 air=0:0 air_bps=0 dev={DEV_A} min=0:300000000"));
+    let (p1, _) = triple(ses, sut, ADMIN, false, "");
+    let out = ses.step(sut, &format!("mint who={ADMIN} admin=0 funds=0:30000000"));
+    ses.step(sut, &format!("sudo fee_bps=250 air=0:0 air_bps=0 dev={DEV_A} min=0:1"));
+    let (p2, _) = triple(ses, sut, ADMIN, false, "");
+    ses.mark(format!("base-captured:{p0}:{p1}:{}:{p2}", &out[..1]));
+    ses.end_case();
+}
+
+/// Every ExecuteMsg variant the schema of each minter crate lists and that no dedicated op drives, sent as raw JSON by a
+/// stranger with stray funds, by the admin with the shuffle fee and by the admin without funds, before and after the start.
+fn other_cases(ses: &mut Session, sut: &mut S) {
+    let now = GENESIS + DAY;
+    for v in 0..11usize {
+        let kind = MinterKind::from_idx(v);
+        let schema = exec_schema(kind);
+        let mut names: Vec<String> = variants_of(&schema).into_iter().map(|(n, _)| n).collect();
+        for h in HANDLED {
+            if names.iter().any(|n| n == h) {
+                ses.mark(format!("variant:{}:{h}", kind.name()));
+            }
+        }
+        names.retain(|n| !HANDLED.contains(&n.as_str()));
+        for n in &names {
+            if !OTHER_TODAY.contains(&n.as_str()) {
+                ses.mark(format!("unknown-variant:{}:{n}", kind.name()));
+                ses.note(format!("ExecuteMsg variant `{n}` of {} is not known to the C02 harness: sent with schema-derived arguments under the monitors", kind.name()));
+            }
+        }
+        // sale-ending messages last
+        names.sort_by_key(|n| (n == "purge") as u8 * 2 + (n == "burn_remaining") as u8);
+        let mut sc = base_sc(v, now);
+        sc.air = (0, 1_000);
+        sc.air_bps = 5000;
+        if kind == MinterKind::Base {
+            sc.min = sc.price;
+        }
+        ses.begin_case(sut, &sc.header());
+        for a in [ADMIN, BUYERS[0], BUYERS[1], MERGER] {
+            ses.step(sut, &format!("fund a={a} cs={}", big_funds()));
+        }
+        let mut sent = 0usize;
+        for (phase, t) in [(0, sc.now + 10 * SEC), (1, sc.start + 5 * SEC)] {
+            ses.step(sut, &format!("t at={t}"));
+            if phase == 1 {
+                // some sale state to act on
+                let admin = kind == MinterKind::TokenMerge;
+                let who = if kind == MinterKind::Base || admin { ADMIN } else { BUYERS[0] };
+                triple(ses, sut, who, admin, &mint_extra(kind, admin));
+            }
+            for n in &names {
+                let ending = n == "purge" || n == "burn_remaining";
+                if ending && phase == 0 {
+                    continue;
+                }
+                let arg = if n.contains("time") { sc.start + 500 * SEC + phase * 7 } else { 2 + phase };
+                for (who, funds) in [(BUYERS[1], "7:5".to_string()), (ADMIN, format!("0:{SHUFFLE_FEE}")), (ADMIN, "-".to_string()), (BUYERS[1], format!("0:{SHUFFLE_FEE}"))] {
+                    let out = ses.step(sut, &format!("other msg={n} who={who} funds={funds} n={arg}"));
+                    ses.mark(format!("other:{}:{n}:{}:{}", kind.name(), if funds == "-" { "nofunds" } else { "funds" }, &out[..2]));
+                }
+                if phase == 1 {
+                    sent += 1;
+                    // the sale goes on: a mint right after the other message
+                    if !ending {
+                        let admin = kind == MinterKind::TokenMerge;
+                        let who = if kind == MinterKind::Base || admin { ADMIN } else { BUYERS[0] };
+                        let (pat, _) = triple(ses, sut, who, admin, &mint_extra(kind, admin));
+                        ses.mark(format!("mint-after-other:{}:{n}:{pat}", kind.name()));
+                    }
+                }
+            }
+        }
+        if sent == names.len() {
+            ses.mark(format!("other-all-sent:{}:{}", kind.name(), names.len()));
+        }
+        ses.end_case();
     }
 }
 
 /// Deterministic cases run before the random ones: the F-C02 reproduction on every minter that had it, and exhaustive
 /// price-grid x bps-grid sweeps (airdrop price via sudo, public price by lowering it step by step, base price via bps).
 fn fixed_cases(ses: &mut Session, sut: &mut S, rng: &mut Rng) {
-    let big: u128 = 1u128 << 108;
-    let all: Vec<C> = DENOMS.iter().map(|d| (*d, big)).collect();
+    let all = big_funds();
     let now = GENESIS + DAY;
     let thorough = ses.tier() != Tier::Quick;
     // 1. F-C02 (fixed by e08eaf1): airdrop price 100, airdrop fee 50 % => the other 50 must reach the seller, not stay in the minter
@@ -1039,7 +1896,7 @@ fn fixed_cases(ses: &mut Session, sut: &mut S, rng: &mut Rng) {
             sc.air_bps = 5000;
             sc.pay = pay;
             ses.begin_case(sut, &sc.header());
-            ses.step(sut, &format!("fund a={ADMIN} cs={}", fmt_pairs(&all)));
+            ses.step(sut, &format!("fund a={ADMIN} cs={all}"));
             let out = ses.step(sut, &format!("mint who={ADMIN} admin=1 to={RECIP} funds=0:100"));
             ses.mark(format!("corpus:F-C02:{}:{}", MinterKind::from_idx(v).name(), &out[..2]));
             ses.end_case();
@@ -1062,7 +1919,7 @@ fn fixed_cases(ses: &mut Session, sut: &mut S, rng: &mut Rng) {
         sc.cap = false;
         sc.air = (d, 1);
         ses.begin_case(sut, &sc.header());
-        ses.step(sut, &format!("fund a={ADMIN} cs={}", fmt_pairs(&all)));
+        ses.step(sut, &format!("fund a={ADMIN} cs={all}"));
         for (i, (p, b)) in combos.iter().enumerate() {
             if *p == 0 {
                 continue;
@@ -1086,7 +1943,7 @@ fn fixed_cases(ses: &mut Session, sut: &mut S, rng: &mut Rng) {
         for chunk in todo.chunks(55) {
             let sc = base_sc(v, now);
             ses.begin_case(sut, &sc.header());
-            ses.step(sut, &format!("fund a={ADMIN} cs={}", fmt_pairs(&all)));
+            ses.step(sut, &format!("fund a={ADMIN} cs={all}"));
             for (p, b) in chunk {
                 ses.step(sut, &format!("sudo fee_bps=1000 air=0:{p} air_bps={b} dev={DEV_A}"));
                 let funds = if *p == 0 { "-".to_string() } else { format!("0:{p}") };
@@ -1106,7 +1963,7 @@ fn fixed_cases(ses: &mut Session, sut: &mut S, rng: &mut Rng) {
         sc.pal = Some(50);
         ses.begin_case(sut, &sc.header());
         for b in BUYERS {
-            ses.step(sut, &format!("fund a={b} cs={}", fmt_pairs(&all)));
+            ses.step(sut, &format!("fund a={b} cs={all}"));
         }
         ses.step(sut, &format!("t at={}", sc.start));
         let mut desc = grid.clone();
@@ -1134,27 +1991,294 @@ fn fixed_cases(ses: &mut Session, sut: &mut S, rng: &mut Rng) {
     }
     // 4. base minter: price = floor(min_mint_price x bps / 10^4) for grid minimum prices x all bps (incl. non-multiples of the divisor)
     let mins: Vec<u128> = if thorough { grid.clone() } else { grid.iter().copied().step_by(6).collect() };
-    for chunk in mins.chunks(8) {
-        for m in chunk {
-            let mut sc = base_sc(10, now);
-            sc.price = *m;
-            sc.min = *m;
-            ses.begin_case(sut, &sc.header());
-            ses.step(sut, &format!("fund a={ADMIN} cs={}", fmt_pairs(&all)));
-            for b in [1u64, 250, 5000, 9999, 10_000, 3] {
-                ses.step(sut, &format!("sudo fee_bps={b} air=0:0 air_bps=0 dev={DEV_A}"));
-                let fee = mul_bps(*m, b);
-                let funds = if fee == 0 { "-".to_string() } else { format!("0:{fee}") };
-                let out = ses.step(sut, &format!("mint who={ADMIN} admin=0 funds={funds}"));
-                ses.mark(format!("sweep:base:{}:bps{}:{}", price_class(fee), b, &out[..2]));
-                ses.count(&format!("sweep:base:{}", &out[..2]));
-                let out = ses.step(sut, &format!("mint who={ADMIN} admin=0 funds=0:{}", fee + 1));
-                ses.mark(format!("sweep:base-off:{}", &out[..2]));
-                ses.count(&format!("sweep:base-off:{}", &out[..2]));
+    for m in &mins {
+        let mut sc = base_sc(10, now);
+        sc.price = *m;
+        sc.min = *m;
+        ses.begin_case(sut, &sc.header());
+        ses.step(sut, &format!("fund a={ADMIN} cs={all}"));
+        for b in [1u64, 250, 5000, 9999, 10_000, 3] {
+            ses.step(sut, &format!("sudo fee_bps={b} air=0:0 air_bps=0 dev={DEV_A}"));
+            let fee = mul_bps(*m, b);
+            let funds = if fee == 0 { "-".to_string() } else { format!("0:{fee}") };
+            let out = ses.step(sut, &format!("mint who={ADMIN} admin=0 funds={funds}"));
+            ses.mark(format!("sweep:base:{}:bps{}:{}", price_class(fee), b, &out[..2]));
+            ses.count(&format!("sweep:base:{}", &out[..2]));
+            let out = ses.step(sut, &format!("mint who={ADMIN} admin=0 funds=0:{}", fee + 1));
+            ses.mark(format!("sweep:base-off:{}", &out[..2]));
+            ses.count(&format!("sweep:base-off:{}", &out[..2]));
+        }
+        ses.end_case();
+    }
+}
+
+fn random_case(ses: &mut Session, sut: &mut S, rng: &mut Rng, v: usize) {
+    let kind = MinterKind::from_idx(v);
+    let big: u128 = 1u128 << 104;
+    let sc = gen_scenario(rng, v);
+    ses.begin_case(sut, &sc.header());
+    ses.count(&format!("case:{}", kind.name()));
+    let wtag = |w: &Option<Sched>| match w {
+        None => "none".to_string(),
+        Some(s) => format!("{}{}", if s.incl { "tiered" } else { "single" }, s.stages.len()),
+    };
+    ses.mark(format!("setup:{}:{}:pay{}:wl-{}:denom{}", kind.name(), if sc.cap { "cap" } else { "nocap" }, sc.pay.is_some() as u8, wtag(&sc.wl), sc.d));
+    // funding (tracked by the model as well)
+    let mut payers: Vec<u64> = vec![ADMIN];
+    if kind == MinterKind::TokenMerge {
+        payers.push(MERGER);
+    }
+    payers.extend(BUYERS);
+    let all: Vec<C> = DENOMS.iter().map(|d| (*d, big)).collect();
+    for p in &payers {
+        ses.step(sut, &format!("fund a={p} cs={}", fmt_pairs(&all)));
+    }
+    ses.step(sut, &format!("fund a={OUTSIDER} cs={}:{}", sc.d, 1 + rng.below(3)));
+    let mut now = sc.now;
+    let mut next_tok = 1u64;
+    let n_ops = 18 + rng.below(14);
+    // phase: 20% start before everything, 30% at the whitelist opening, 50% at the public opening
+    let ph = rng.below(10);
+    let jump: Option<u64> = if ph < 2 {
+        None
+    } else if ph < 5 {
+        Some(sc.wl.as_ref().map(|w| w.stages[0].start + rng.below(3)).unwrap_or(sc.start))
+    } else {
+        Some(sc.start.max(sc.wl.as_ref().map(|w| w.stages.last().unwrap().end).unwrap_or(0)) + rng.below(2))
+    };
+    if let Some(t) = jump {
+        now = t;
+        ses.step(sut, &format!("t at={t}"));
+    }
+    for _opi in 0..n_ops {
+        let roll = rng.below(100);
+        let g = sut.ghost().clone();
+        if roll < 14 {
+            // clock: next interesting instant (as configured NOW, after any whitelist edit), or a random step
+            let ins = instants(&g, &sc);
+            let t = match ins.iter().find(|t| **t > now) {
+                Some(t) if rng.chance(3, 4) => *t,
+                _ => now + rng.range(1, 4000) * SEC,
+            };
+            now = t;
+            ses.step(sut, &format!("t at={t}"));
+            continue;
+        }
+        if roll < 23 {
+            // governance: fee rates / airdrop price / dev address (/ the factory's current minimum price)
+            let fb = bps_grid(rng);
+            let ab = bps_grid(rng);
+            let amt = if rng.chance(1, 5) { 0 } else { price_grid(rng) };
+            let ad = match kind.factory() {
+                FactoryKind::OpenEdition => *rng.pick(&[0u64, sc.d, 8]),
+                _ => {
+                    if rng.chance(1, 8) {
+                        7
+                    } else {
+                        0
+                    }
+                }
+            };
+            let dev = if rng.chance(1, 2) { sc.devs[0] } else { sc.devs[1] };
+            let mut line = format!("sudo fee_bps={fb} air={ad}:{amt} air_bps={ab} dev={dev}");
+            if kind == MinterKind::Base && rng.chance(1, 2) {
+                line.push_str(&format!(" min={}:{}", sc.d, price_grid(rng)));
             }
-            ses.end_case();
+            let out = ses.step(sut, &line);
+            ses.mark(format!("sudo:{}:{}", kind.name(), &out[..2]));
+            continue;
+        }
+        if roll < 36 && (kind.is_vending() || kind.is_open_edition()) {
+            // price history: update price / discount / whitelist
+            let cur = g.public.1;
+            let which = rng.below(if kind.is_vending() { 5 } else { 2 });
+            let line = match which {
+                0 => {
+                    let p = match rng.below(4) {
+                        0 => price_grid(rng),
+                        1 => cur.saturating_sub(1 + rng.below(3) as u128).max(sc.min),
+                        2 => sc.min,
+                        _ => cur / 2 + sc.min / 2,
+                    };
+                    format!("set_price p={p}")
+                }
+                1 => {
+                    let pick_b = rng.chance(1, 2);
+                    match (if pick_b { &sc.wlb } else { &sc.wl }, pick_b) {
+                        (Some(_), b) => format!("set_wl which={}", if b { "b" } else { "a" }),
+                        _ => format!("set_price p={}", cur),
+                    }
+                }
+                2 | 3 => {
+                    let p = match rng.below(3) {
+                        0 => sc.min,
+                        1 => cur,
+                        _ => sc.min + (cur.saturating_sub(sc.min)) / 2,
+                    };
+                    format!("set_discount p={p}")
+                }
+                _ => "rm_discount".to_string(),
+            };
+            let out = ses.step(sut, &line);
+            ses.mark(format!("cfg:{}:{}:{}", kind.name(), line.split_whitespace().next().unwrap(), &out[..2]));
+            continue;
+        }
+        if roll < 43 && (g.wla.is_some() || g.wlb.is_some()) {
+            // whitelist-side history: the whitelist admin moves a window or changes a stage price
+            let which = if g.wlb.is_none() || (g.wla.is_some() && rng.chance(2, 3)) { 'a' } else { 'b' };
+            let s = if which == 'a' { g.wla.clone().unwrap() } else { g.wlb.clone().unwrap() };
+            let k = if s.stages.is_empty() { 0 } else { rng.below(s.stages.len() as u64) as usize };
+            let near = |rng: &mut Rng, t: u64| -> u64 {
+                match rng.below(5) {
+                    0 => now,
+                    1 => now + 1,
+                    2 => t.saturating_sub(rng.range(1, 50) * SEC).max(GENESIS),
+                    3 => t + rng.range(1, 200) * SEC,
+                    _ => now + rng.range(1, 300) * SEC,
+                }
+            };
+            let st = s.stages.get(k).cloned().unwrap_or(St { price: (sc.d, 1), start: now + SEC, end: now + 100 * SEC });
+            let by = if rng.chance(1, 10) { format!(" by={}", BUYERS[0]) } else { String::new() };
+            let line = if !s.incl {
+                if rng.chance(1, 2) {
+                    format!("wl_edit which={which} op=end t={}{by}", near(rng, st.end))
+                } else {
+                    format!("wl_edit which={which} op=start t={}{by}", near(rng, st.start))
+                }
+            } else {
+                match rng.below(if kind.is_merkle() { 6 } else { 8 }) {
+                    0 | 1 => format!("wl_edit which={which} op=end k={k} t={}{by}", near(rng, st.end)),
+                    2 => format!("wl_edit which={which} op=start k={k} t={}{by}", near(rng, st.start)),
+                    3 | 4 | 5 => {
+                        let p = if rng.chance(1, 4) { sc.min } else { sc.min + price_grid(rng) };
+                        format!("wl_edit which={which} op=price k={k} p={}:{p}{by}", st.price.0)
+                    }
+                    6 => format!("wl_edit which={which} op=rmstage k={k}{by}"),
+                    _ => {
+                        let last = s.stages.last().map(|x| x.end).unwrap_or(now).max(now);
+                        let t = last + rng.below(3) * SEC;
+                        format!("wl_edit which={which} op=addstage t={t} e={} p={}:{}{by}", t + rng.range(50, 500) * SEC, st.price.0, sc.min + price_grid(rng))
+                    }
+                }
+            };
+            let out = ses.step(sut, &line);
+            let attached = g.att == Some(which);
+            ses.mark(format!("wl-edit:{}:{}:{}:att{}:{}", kind.name(), if s.incl { "tiered" } else { "single" }, kv(&line, "op").unwrap(), attached as u8, &out[..2]));
+            continue;
+        }
+        if roll < 46 {
+            // some other message of the minter (the sale-ending ones are left to `other_cases`)
+            let names: Vec<&str> = OTHER_TODAY.iter().copied().filter(|n| *n != "purge" && *n != "burn_remaining" && build_variant(kind, n, 1).is_some()).collect();
+            if !names.is_empty() {
+                let n = *rng.pick(&names);
+                let who = if rng.chance(1, 2) { ADMIN } else { *rng.pick(&BUYERS) };
+                let funds = match rng.below(3) {
+                    0 => "-".to_string(),
+                    1 => format!("0:{SHUFFLE_FEE}"),
+                    _ => format!("{}:{}", rng.pick(&DENOMS), 1 + rng.below(9)),
+                };
+                let arg = if n.contains("time") { now + rng.range(1, 3000) * SEC } else { 1 + rng.below(40) };
+                let out = ses.step(sut, &format!("other msg={n} who={who} funds={funds} n={arg}"));
+                ses.mark(format!("other-rand:{}:{n}:{}", kind.name(), &out[..2]));
+                continue;
+            }
+        }
+        // a mint
+        let admin = kind != MinterKind::Base && rng.chance(if kind == MinterKind::TokenMerge { 2 } else { 1 }, 3);
+        let (price, bps) = price_in_force(kind, &g, admin);
+        let pkind0 = price_kind(kind, &g, admin);
+        if rng.chance(1, 6) && !(kind == MinterKind::TokenMerge && !admin) {
+            let who = if admin || kind == MinterKind::Base { ADMIN } else { *rng.pick(&BUYERS) };
+            triple(ses, sut, who, admin, &mint_extra(kind, admin));
+            continue;
+        }
+        let fault = match rng.below(100) {
+            0..=58 => Fault::Exact,
+            59..=63 => Fault::AltPrice,
+            64..=66 => Fault::Plus1,
+            67..=71 => Fault::Minus1,
+            72..=76 => Fault::WrongDenom,
+            77..=81 => Fault::ExtraCoin,
+            82..=83 => Fault::DupCoin,
+            84..=87 => Fault::NoFunds,
+            88..=90 => Fault::ZeroCoin,
+            91..=93 => Fault::Double,
+            94..=95 => Fault::Random,
+            96 => Fault::AltPrice,
+            _ => Fault::Broke,
+        };
+        let mut who = if admin {
+            if rng.chance(1, 14) {
+                *rng.pick(&BUYERS)
+            } else {
+                ADMIN
+            }
+        } else {
+            match kind {
+                MinterKind::Base => {
+                    if rng.chance(1, 10) {
+                        *rng.pick(&BUYERS)
+                    } else {
+                        ADMIN
+                    }
+                }
+                MinterKind::TokenMerge => MERGER,
+                _ => *rng.pick(&BUYERS),
+            }
+        };
+        if fault == Fault::Broke && !admin && kind != MinterKind::TokenMerge && kind != MinterKind::Base {
+            who = OUTSIDER;
+        }
+        let mut line = format!("mint who={who} admin={}", admin as u8);
+        let mut funds = craft_funds(rng, price, fault);
+        let mut fault = fault;
+        if fault == Fault::AltPrice {
+            let alts = alt_prices(&g, price);
+            if alts.is_empty() {
+                fault = Fault::Plus1;
+                funds = craft_funds(rng, price, fault);
+            } else {
+                funds = vec![*rng.pick(&alts)];
+            }
+        }
+        let mut pkind = pkind0;
+        if admin {
+            let to = if rng.chance(1, 2) { RECIP } else { *rng.pick(&BUYERS) };
+            line.push_str(&format!(" to={to}"));
+            if (kind.is_vending() || kind == MinterKind::TokenMerge) && rng.chance(1, 3) {
+                line.push_str(&format!(" for={}", rng.range(1, 60)));
+            }
+        } else if kind == MinterKind::TokenMerge {
+            pkind = "merge";
+            if rng.chance(1, 5) {
+                // a stranger calls ReceiveNft directly (with or without funds): not a listed collection
+                line = format!("mint who={} admin=0 direct=1 tok=9", *rng.pick(&BUYERS));
+            } else {
+                funds = vec![]; // cw721 send_nft never forwards funds
+                fault = Fault::Exact;
+                line.push_str(&format!(" tok={next_tok}"));
+                next_tok = (next_tok % 4) + 1;
+            }
+        }
+        line.push_str(&format!(" funds={}", fmt_pairs(&funds)));
+        let out = ses.step(sut, &line);
+        let okerr = &out[..2];
+        ses.count(&format!("mint:{pkind}:{:?}:{okerr}", fault));
+        ses.count(&format!("kind:{}:{pkind}:{okerr}", kind.name()));
+        ses.mark(format!("mint:{}:{pkind}:{:?}:{okerr}", kind.name(), fault));
+        ses.mark(format!("price:{pkind}:{}:bps{}:d{}:{okerr}", price_class(price.1), bps_class(bps), price.0));
+        if okerr == "ok" {
+            ses.mark(format!("paid:{}:{pkind}:{}:bps{}:native{}:pay{}", kind.name(), price_class(price.1), bps_class(bps), (price.0 == 0) as u8, sc.pay.is_some() as u8));
+            if pkind == "whitelist" {
+                let s = g.sched().unwrap();
+                ses.mark(format!("paid-stage:{}:{}:stage{}", kind.name(), if s.incl { "tiered" } else { "single" }, g.stage_now().map(|x| x.0).unwrap_or(9)));
+            }
+            if sc.pay.map(|p| sc.fee_accts().contains(&p) || p == who).unwrap_or(false) || sc.fee_accts().contains(&who) {
+                ses.mark(format!("paid-aliased:{}:{pkind}", kind.name()));
+            }
         }
     }
+    ses.end_case();
 }
 
 fn main() {
@@ -1164,233 +2288,62 @@ fn main() {
         ses.finish(&mut sut);
     }
     let mut rng = ses.rng.fork();
-    let per_kind = ses.scale(50, 1300);
-    let big: u128 = 1u128 << 104;
-    fixed_cases(&mut ses, &mut sut, &mut rng);
+    let per_kind = ses.scale(34, 900);
 
-    for round in 0..per_kind {
+    // coverage floor: without these the run would be vacuous in exactly the places the property speaks about
+    for k in ALL_MINTERS {
+        // wrong amounts rejected and the exact price accepted in one block by one sender, on every minter
+        ses.require(format!("triple-ok:{}:", k.name()));
+        // every ExecuteMsg variant outside the dedicated ops was sent
+        ses.require(format!("other-all-sent:{}:", k.name()));
+    }
+    for k in WL_KINDS.map(MinterKind::from_idx) {
+        let n = k.name();
+        // tiered: the end instant still belongs to the stage (and, contiguous, to the EARLIER stage); one ns later the next
+        // stage / the public price; single-stage: end-exclusive
+        ses.require(format!("edge:{n}:i:s1.end+0:whitelist:0"));
+        ses.require(format!("edge:{n}:i:s1.end+1:whitelist:1"));
+        ses.require(format!("edge:{n}:i:s2.end+0:whitelist:1"));
+        ses.require(format!("edge:{n}:i:s2.end+1:public"));
+        ses.require(format!("edge:{n}:i:s3.start-1:public"));
+        ses.require(format!("edge:{n}:i:s3.start+0:whitelist:2"));
+        ses.require(format!("edge:{n}:x:s1.end-1:whitelist:0"));
+        ses.require(format!("edge:{n}:x:s1.end+0:public"));
+        ses.require(format!("edge:{n}:x:s1.start+0:whitelist:0"));
+        ses.require(format!("edge-alt:{n}:i:er"));
+        ses.require(format!("repeat:{n}:ok"));
+        // a whitelist-side edit between two mints of one block changes the price in force
+        ses.require(format!("edit-between:{n}:i:oeo"));
+        ses.require(format!("edit-between:{n}:x:oeo"));
+    }
+    for a in ["seller-is-liquidity-dao", "seller-is-launchpad-dao", "payer-is-seller", "payer-is-developer", "seller-is-developer", "payer-is-seller-is-developer"] {
+        ses.require(format!("alias:{a}:public:eeo"));
+        ses.require(format!("alias:{a}:airdrop:eeo"));
+    }
+    ses.require("base-captured:eeo:eeo:e:eeo");
+    ses.require("corpus:F-C02:");
+
+    fixed_cases(&mut ses, &mut sut, &mut rng);
+    alias_cases(&mut ses, &mut sut);
+    other_cases(&mut ses, &mut sut);
+    let rounds = ses.scale(1, 12);
+    for _ in 0..rounds {
+        stage_cases(&mut ses, &mut sut, &mut rng);
+    }
+    for _round in 0..per_kind {
         for v in 0..11usize {
-            let kind = MinterKind::from_idx(v);
-            let sc = gen_scenario(&mut rng, v);
-            ses.begin_case(&mut sut, &sc.header());
-            ses.count(&format!("case:{}", kind.name()));
-            ses.mark(format!("setup:{}:{}:pay{}:wl{}:denom{}", kind.name(), if sc.cap { "cap" } else { "nocap" }, sc.pay.is_some() as u8, sc.wl.is_some() as u8, sc.d));
-            // funding (tracked by the model as well)
-            let mut payers: Vec<u64> = vec![ADMIN];
-            if kind == MinterKind::TokenMerge {
-                payers.push(MERGER);
-            }
-            payers.extend(BUYERS);
-            let all: Vec<C> = DENOMS.iter().map(|d| (*d, big)).collect();
-            for p in &payers {
-                ses.step(&mut sut, &format!("fund a={p} cs={}", fmt_pairs(&all)));
-            }
-            ses.step(&mut sut, &format!("fund a={OUTSIDER} cs={}:{}", sc.d, 1 + rng.below(3)));
-            let mut now = sc.now;
-            let mut instants: Vec<u64> = vec![sc.start - 1, sc.start, sc.start + 1, sc.start + 13 * 3600 * SEC];
-            for w in [&sc.wl, &sc.wlb].into_iter().flatten() {
-                instants.extend([w.start - 1, w.start, w.end - 1, w.end]);
-            }
-            instants.sort();
-            let mut next_tok = 1u64;
-            let mut dev = sc.dev;
-            let n_ops = 18 + rng.below(14);
-            // phase: 20% start before everything, 30% at the whitelist opening, 50% at the public opening
-            let ph = rng.below(10);
-            let jump: Option<u64> = if ph < 2 {
-                None
-            } else if ph < 5 {
-                Some(sc.wl.as_ref().map(|w| w.start + rng.below(3)).unwrap_or(sc.start))
-            } else {
-                Some(sc.start.max(sc.wl.as_ref().map(|w| w.end).unwrap_or(0)) + rng.below(2))
-            };
-            if let Some(t) = jump {
-                now = t;
-                ses.step(&mut sut, &format!("t at={t}"));
-            }
-            for _opi in 0..n_ops {
-                let roll = rng.below(100);
-                if roll < 14 {
-                    // clock: next interesting instant, or a random step
-                    let t = match instants.iter().find(|t| **t > now) {
-                        Some(t) if rng.chance(3, 4) => *t,
-                        _ => now + rng.range(1, 4000) * SEC,
-                    };
-                    now = t;
-                    ses.step(&mut sut, &format!("t at={t}"));
-                    continue;
-                }
-                if roll < 24 {
-                    // governance: fee rates / airdrop price / dev address
-                    let fb = bps_grid(&mut rng);
-                    let ab = bps_grid(&mut rng);
-                    let amt = if rng.chance(1, 5) { 0 } else { price_grid(&mut rng) };
-                    let ad = match kind.factory() {
-                        FactoryKind::OpenEdition => *rng.pick(&[0u64, sc.d, 8]),
-                        _ => {
-                            if rng.chance(1, 8) {
-                                7
-                            } else {
-                                0
-                            }
-                        }
-                    };
-                    if rng.chance(1, 2) {
-                        dev = if dev == DEV_A { DEV_B } else { DEV_A };
-                    }
-                    let line = format!("sudo fee_bps={fb} air={ad}:{amt} air_bps={ab} dev={dev}");
-                    let out = ses.step(&mut sut, &line);
-                    if !out.starts_with("ok") {
-                        // the model keeps the old dev address when the update is rejected
-                        dev = sut.view().dev.unwrap_or(dev);
-                    }
-                    ses.mark(format!("sudo:{}:{}", kind.name(), &out[..2]));
-                    continue;
-                }
-                if roll < 38 && (kind.is_vending() || kind.is_open_edition()) {
-                    // price history: update price / discount / whitelist
-                    let view = sut.view();
-                    let cur = view.public.map(|c| c.1).unwrap_or(0);
-                    let which = rng.below(if kind.is_vending() { 5 } else { 2 });
-                    let line = match which {
-                        0 => {
-                            let p = match rng.below(4) {
-                                0 => price_grid(&mut rng),
-                                1 => cur.saturating_sub(1 + rng.below(3) as u128).max(sc.min),
-                                2 => sc.min,
-                                _ => cur / 2 + sc.min / 2,
-                            };
-                            format!("set_price p={p}")
-                        }
-                        1 => {
-                            let pick_b = rng.chance(1, 2);
-                            match (if pick_b { &sc.wlb } else { &sc.wl }, pick_b) {
-                                (Some(w), b) => format!("set_wl which={} price={} start={} end={}", if b { "b" } else { "a" }, fmt_c(&w.price), w.start, w.end),
-                                _ => format!("set_price p={}", cur),
-                            }
-                        }
-                        2 | 3 => {
-                            let p = match rng.below(3) {
-                                0 => sc.min,
-                                1 => cur,
-                                _ => sc.min + (cur.saturating_sub(sc.min)) / 2,
-                            };
-                            format!("set_discount p={p}")
-                        }
-                        _ => "rm_discount".to_string(),
-                    };
-                    let out = ses.step(&mut sut, &line);
-                    ses.mark(format!("cfg:{}:{}:{}", kind.name(), line.split_whitespace().next().unwrap(), &out[..2]));
-                    continue;
-                }
-                // a mint
-                let admin = kind != MinterKind::Base && rng.chance(if kind == MinterKind::TokenMerge { 2 } else { 1 }, 3);
-                let view = sut.view();
-                let (price, bps) = sut.price_in_force(&view, admin);
-                let fault = match rng.below(100) {
-                    0..=61 => Fault::Exact,
-                    62..=63 => Fault::AltPrice,
-                    64..=66 => Fault::Plus1,
-                    67..=71 => Fault::Minus1,
-                    72..=76 => Fault::WrongDenom,
-                    77..=81 => Fault::ExtraCoin,
-                    82..=83 => Fault::DupCoin,
-                    84..=87 => Fault::NoFunds,
-                    88..=90 => Fault::ZeroCoin,
-                    91..=93 => Fault::Double,
-                    94..=95 => Fault::Random,
-                    96 => Fault::AltPrice,
-                    _ => Fault::Broke,
-                };
-                let mut who = if admin {
-                    if rng.chance(1, 14) {
-                        *rng.pick(&BUYERS)
-                    } else {
-                        ADMIN
-                    }
-                } else {
-                    match kind {
-                        MinterKind::Base => {
-                            if rng.chance(1, 10) {
-                                *rng.pick(&BUYERS)
-                            } else {
-                                ADMIN
-                            }
-                        }
-                        MinterKind::TokenMerge => MERGER,
-                        _ => *rng.pick(&BUYERS),
-                    }
-                };
-                if fault == Fault::Broke && !admin && kind != MinterKind::TokenMerge && kind != MinterKind::Base {
-                    who = OUTSIDER;
-                }
-                let mut line = format!("mint who={who} admin={}", admin as u8);
-                let mut funds = craft_funds(&mut rng, price, fault);
-                let mut fault = fault;
-                if fault == Fault::AltPrice {
-                    let mut alts: Vec<C> = vec![];
-                    alts.extend(view.public);
-                    alts.extend(view.discount);
-                    alts.extend(view.wl.map(|w| w.1));
-                    alts.push(view.air);
-                    alts.retain(|c| *c != price && c.1 != 0);
-                    if alts.is_empty() {
-                        fault = Fault::Plus1;
-                        funds = craft_funds(&mut rng, price, fault);
-                    } else {
-                        funds = vec![*rng.pick(&alts)];
-                    }
-                }
-                let pkind;
-                if admin {
-                    pkind = "airdrop";
-                    let to = if rng.chance(1, 2) { RECIP } else { *rng.pick(&BUYERS) };
-                    line.push_str(&format!(" to={to}"));
-                    if (kind.is_vending() || kind == MinterKind::TokenMerge) && rng.chance(1, 3) {
-                        line.push_str(&format!(" for={}", rng.range(1, 60)));
-                    }
-                } else if kind == MinterKind::TokenMerge {
-                    pkind = "merge";
-                    if rng.chance(1, 5) {
-                        // a stranger calls ReceiveNft directly (with or without funds): not a listed collection
-                        line = format!("mint who={} admin=0 direct=1 tok=9", *rng.pick(&BUYERS));
-                    } else {
-                        funds = vec![]; // cw721 send_nft never forwards funds
-                        fault = Fault::Exact;
-                        line.push_str(&format!(" tok={next_tok}"));
-                        next_tok = (next_tok % 4) + 1;
-                    }
-                } else if kind == MinterKind::Base {
-                    pkind = "base";
-                } else {
-                    pkind = match view.wl {
-                        Some((true, _)) => "whitelist",
-                        _ => {
-                            if view.discount.is_some() {
-                                "discount"
-                            } else {
-                                "public"
-                            }
-                        }
-                    };
-                }
-                line.push_str(&format!(" funds={}", fmt_pairs(&funds)));
-                let out = ses.step(&mut sut, &line);
-                let okerr = &out[..2];
-                ses.count(&format!("mint:{pkind}:{:?}:{okerr}", fault));
-                ses.count(&format!("kind:{}:{pkind}:{okerr}", kind.name()));
-                ses.mark(format!("mint:{}:{pkind}:{:?}:{okerr}", kind.name(), fault));
-                ses.mark(format!("price:{pkind}:{}:bps{}:d{}:{okerr}", price_class(price.1), bps_class(bps), price.0));
-                if okerr == "ok" {
-                    ses.mark(format!("paid:{}:{pkind}:{}:bps{}:native{}:pay{}", kind.name(), price_class(price.1), bps_class(bps), (price.0 == 0) as u8, sc.pay.is_some() as u8));
-                }
-            }
-            ses.end_case();
+            random_case(&mut ses, &mut sut, &mut rng, v);
         }
-        let _ = round;
     }
     let ek: Vec<String> = sut.err_kinds.iter().map(|(k, n)| format!("{k}={n}")).collect();
-    ses.note(format!("mint rejection kinds seen on the implementation: {}", ek.join("; ")));
+    ses.note(format!("mint rejection texts seen on the implementation (evidence only, nothing depends on them): {}", ek.join("; ")));
+    if sut.diag.is_empty() {
+        ses.note("ghost state vs the contracts' own answers (MintPrice query, whitelist tables): no difference".to_string());
+    }
+    for (k, n) in sut.diag.clone() {
+        ses.note(format!("DIAGNOSTIC {k}: {n} times; first: {}", sut.diag_first.get(&k).cloned().unwrap_or_default()));
+        ses.count(&format!("diag:{k}"));
+    }
     ses.note("values < 2^100; funding 2^104 per payer and denom; denoms: 0=ustars, 7/8/9 = non-native (factory min_mint_price / airdrop price denoms set at factory instantiation)".to_string());
     ses.finish(&mut sut);
 }
